@@ -43,6 +43,33 @@ Lemma closed_agree n l l' E :
   closed l E -> (forall u v t, In (u, v, t) E -> u < n /\ v < n) -> agree n l l' -> closed l' E.
 Proof. intros C B A u v t Hin. destruct (B u v t Hin) as (Hu & Hv). rewrite (A u Hu), (A v Hv). eapply C; exact Hin. Qed.
 
+(* ---- the edges complexity.go counts: one ECondTrue edge per condition block, every exception edge ---- *)
+Definition counted (t : ety) : bool := match t with ECondTrue | EException => true | _ => false end.
+Definition cw (l : lam) (e : N * N * ety) : nat :=
+  match e with (u, _, t) => if counted t then (if l u then 1%nat else 0%nat) else 0%nat end.
+Definition cntE (l : lam) (E : list (N * N * ety)) : nat := list_sum (map (cw l) E).
+
+Lemma cntE_nil l : cntE l [] = 0%nat.
+Proof. reflexivity. Qed.
+Lemma cntE_app l E E' : cntE l (E ++ E') = (cntE l E + cntE l E')%nat.
+Proof. unfold cntE. rewrite map_app, list_sum_app. reflexivity. Qed.
+Lemma cntE_snoc l E a b t :
+  cntE l (E ++ [(a, b, t)]) = (cntE l E + (if counted t then (if l a then 1 else 0) else 0))%nat.
+Proof. rewrite cntE_app. f_equal. unfold cntE. cbn [map list_sum cw]. apply Nat.add_0_r. Qed.
+Lemma cntE_agree n l l' E :
+  (forall u v t, In (u, v, t) E -> u < n /\ v < n) -> agree n l l' -> cntE l' E = cntE l E.
+Proof.
+  intros B A. unfold cntE. f_equal. apply map_ext_in. intros [[u v] t] Hin. cbn [cw].
+  destruct (B u v t Hin) as (Hu & _). rewrite (A u Hu). reflexivity.
+Qed.
+Lemma cntE_map_const l a t tgts :
+  cntE l (map (fun x => (a, x, t)) tgts) = (if counted t then (if l a then length tgts else 0) else 0)%nat.
+Proof.
+  induction tgts as [|x r IH]; [cbn; destruct (counted t); [destruct (l a)|]; reflexivity|].
+  change (map (fun x0 => (a, x0, t)) (x :: r)) with ([(a, x, t)] ++ map (fun x0 => (a, x0, t)) r).
+  rewrite cntE_app, IH. unfold cntE. cbn [map list_sum cw length]. destruct (counted t); [destruct (l a)|]; reflexivity.
+Qed.
+
 (* ---- statements in blocks ---- *)
 Definition placed (s : st) (k e b : N) : Prop :=
   exists l x, In (b, l) (blocks s) /\ In x l /\ b_start x = k /\ b_end x = e.
@@ -223,7 +250,7 @@ with spans_oblock (o : oblock) {struct o} : list (N * N) :=
   match o with ONone => [] | OSome b => spans_block b end.
 
 (* ---- the specification ---- *)
-Definition S_out (s : st) (l : lam) (L : bool) (r : res) (s' : st) (elifs : list N) (spans : list (N * N)) : Prop :=
+Definition S_out (s : st) (l : lam) (L : bool) (r : res) (s' : st) (elifs : list N) (spans : list (N * N)) (c3 : bool) : Prop :=
   exists l', agree (next s) l l' /\ lframe s s' /\ l' (cur s') = rn r /\
     ((L = true -> ctx_ok l s) -> (rk r = true -> brk_ok l s) -> closed l (edges s) -> closed l' (edges s')) /\
     (forall E, incl (edges s') E -> (L = true -> reach E (cur s)) ->
@@ -232,14 +259,16 @@ Definition S_out (s : st) (l : lam) (L : bool) (r : res) (s' : st) (elifs : list
        (L = true -> rn r = false -> forall f, Cfin f s -> reach E f)) /\
     (forall k e b, placed s' k e b -> placed s k e b \/ (k = 0 /\ e = 0) \/ (In (k, l' b) (rmarks r) /\ In (k, e) spans)) /\
     (forall k m, In (k, m) (rmarks r) -> In k elifs \/ exists e b, placed s' k e b /\ l' b = m) /\
-    (forall k e b, placed s k e b -> placed s' k e b).
+    (forall k e b, placed s k e b -> placed s' k e b) /\
+    (* on the construct list of C03: the counted edges out of blocks labelled reachable = Flow's decision count *)
+    (c3 = true -> cntE l' (edges s') = (cntE l (edges s) + rcx r)%nat).
 
 Definition S_stmt (x : stmt) : Prop := forall s l inl,
   inv s -> lok_stmt inl x = true -> (inl = true -> loops s <> []) ->
-  S_out s l (l (cur s)) (flow_stmt (l (cur s)) x) (process_stmt' s x) (elif_stmt x) (spans_stmt x).
+  S_out s l (l (cur s)) (flow_stmt (l (cur s)) x) (process_stmt' s x) (elif_stmt x) (spans_stmt x) (c03_stmt x).
 Definition S_block (b : block) : Prop := forall s l inl,
   inv s -> lok_block inl b = true -> (inl = true -> loops s <> []) ->
-  S_out s l (l (cur s)) (flow_block (l (cur s)) b) (process_block' s b) (elif_block b) (spans_block b).
+  S_out s l (l (cur s)) (flow_block (l (cur s)) b) (process_block' s b) (elif_block b) (spans_block b) (c03_block b).
 Definition S_oblock (o : oblock) : Prop := match o with OSome b => S_block b | ONone => True end.
 
 (* ---- the context predicates only depend on the stacks ---- *)
@@ -273,12 +302,12 @@ Lemma closed_ext l l' s : closed l (edges s) -> inv s -> agree (next s) l l' -> 
 Proof. intros C I A. apply (closed_agree (next s) l); [exact C|apply (wb_bnd _ (i_wfb _ I))|exact A]. Qed.
 
 (* a statement that only adds itself to the current block *)
-Lemma S_add s l k e elifs spans :
+Lemma S_add s l k e elifs spans c3 :
   inv s -> In (k, e) spans ->
   S_out s l (l (cur s)) {| rn := l (cur s); rk := false; rmarks := [(k, l (cur s))]; rcx := 0 |}
-        (add_stmt s (cur s) (mk k e KOther)) elifs spans.
+        (add_stmt s (cur s) (mk k e KOther)) elifs spans c3.
 Proof.
-  intros I Hsp. exists l. split; [apply agree_refl|]. split; [|split; [reflexivity|split; [|split; [|split; [|split]]]]].
+  intros I Hsp. exists l. split; [apply agree_refl|]. split; [|split; [reflexivity|split; [|split; [|split; [|split; [|split]]]]]].
   - destruct (lframe_refl s I) as [M L E C D K]. split; try assumption. apply mid_add_stmt. exact M.
     intros b Hb. apply K. unfold haskey in *. cbn [add_stmt blocks] in Hb. rewrite add_to_keys in Hb. exact Hb.
   - intros _ _ C. exact C.
@@ -289,33 +318,35 @@ Proof.
   - intros k' m [Heq|[]]. inversion Heq; subst. right. exists e, (cur s). split; [|reflexivity].
     apply (placed_add_stmt_new s (cur s) (mk k' e KOther)). apply (wb_keys _ (i_wfb _ I)). apply (i_cur _ I).
   - intros k' e' b. apply placed_add_stmt_mono.
+  - intros _. cbn [rcx add_stmt edges]. rewrite Nat.add_0_r. reflexivity.
 Qed.
 
 Lemma S_block_nil : S_block BNil.
 Proof.
   intros s l inl I _ _. exists l. split; [apply agree_refl|]. split; [apply lframe_refl; exact I|]. split; [reflexivity|].
-  split; [intros _ _ C; exact C|]. split; [|split; [|split]].
+  split; [intros _ _ C; exact C|]. split; [|split; [|split; [|split]]].
   - intros E HE HR. cbn. split; [intros b H1 H2; lia|]. split; [discriminate|]. intros H1 H2. congruence.
   - intros k e b Hp. left. exact Hp.
   - intros k m [].
   - intros k e b Hp. exact Hp.
+  - intros _. cbn [process_block' flow_block rcx]. rewrite Nat.add_0_r. reflexivity.
 Qed.
 
 Lemma S_block_cons x b : S_stmt x -> S_block b -> S_block (BCons x b).
 Proof.
   intros Sx Sb s l inl I Hlok Hinl. cbn [lok_block] in Hlok. apply andb_true_iff in Hlok. destruct Hlok as (Hl1 & Hl2).
   cbn [process_block' flow_block elif_block spans_block].
-  destruct (Sx s l inl I Hl1 Hinl) as (l1 & A1 & F1 & C1 & So1 & Co1 & D1a & D1b & D1c).
+  destruct (Sx s l inl I Hl1 Hinl) as (l1 & A1 & F1 & C1 & So1 & Co1 & D1a & D1b & D1c & Cn1).
   set (s1 := process_stmt' s x) in *. set (L := l (cur s)) in *. set (r1 := flow_stmt L x) in *.
   pose proof (inv_lframe _ _ I F1) as I1.
   assert (Hinl1 : inl = true -> loops s1 <> []) by (rewrite (lf_loops _ _ F1); exact Hinl).
-  destruct (Sb s1 l1 inl I1 Hl2 Hinl1) as (l2 & A2 & F2 & C2 & So2 & Co2 & D2a & D2b & D2c).
+  destruct (Sb s1 l1 inl I1 Hl2 Hinl1) as (l2 & A2 & F2 & C2 & So2 & Co2 & D2a & D2b & D2c & Cn2).
   rewrite C1 in *. set (s2 := process_block' s1 b) in *. set (r2 := flow_block (rn r1) b) in *.
   pose proof (m_next _ _ _ (lf_mid _ _ F1)) as N1. pose proof (m_next _ _ _ (lf_mid _ _ F2)) as N2.
   exists l2. split; [eapply agree_trans; eauto|]. split; [eapply lframe_trans; eauto|]. split; [exact C2|].
-  cbn [rn rk rmarks].
+  cbn [rn rk rmarks rcx].
   assert (HL1 : rn r1 = true -> L = true) by (apply rn_stmt_le).
-  split; [|split; [|split; [|split]]].
+  split; [|split; [|split; [|split; [|split]]]].
   - intros Hc Hb Cl. apply So2.
     + intro H1. apply (ctx_ok_agree l l1 s s1); [apply Hc; apply HL1; exact H1|exact I|exact A1|apply F1|apply F1].
     + intro H2. apply (brk_ok_agree l l1 s s1); [apply Hb; rewrite H2; apply orb_true_r|exact I|exact A1|apply F1].
@@ -352,6 +383,8 @@ Proof.
       rewrite (A2 c Hc). exact Hm.
     + destruct (D2b k m Hin) as [He|H]; [left; apply in_or_app; right; exact He|right; exact H].
   - intros k e c Hp. apply D2c, D1c. exact Hp.
+  - intro H3. cbn [c03_block] in H3. apply andb_true_iff in H3. destruct H3 as (H3a & H3b).
+    rewrite (Cn2 H3b), (Cn1 H3a). symmetry. apply Nat.add_assoc.
 Qed.
 
 (* ---- [placed] through the primitives (rewrite database [plc]) ---- *)
@@ -417,7 +450,7 @@ Proof.
 Qed.
 
 (* ---- a statement that jumps: its own line in the current block, edges to [tgts], a fresh current block ---- *)
-Lemma S_jump s l k kd s2 tgts elifs spans rkv :
+Lemma S_jump s l k kd s2 tgts elifs spans rkv cxv c3 :
   inv s -> In (k, k) spans ->
   next s2 = next s -> cur s2 = cur s -> loops s2 = loops s -> excs s2 = excs s -> blocks s2 = blocks (add_stmt s (cur s) (mk k k kd)) ->
   mid anyb s s2 ->
@@ -428,14 +461,15 @@ Lemma S_jump s l k kd s2 tgts elifs spans rkv :
   (rkv = true -> L = true) ->
   (rkv = true -> noproc s -> forall t, brk_t s = Some t -> In t tgts) ->
   (L = true -> forall f, Cfin f s -> In f tgts) ->
-  S_out s l L {| rn := false; rk := rkv; rmarks := [(k, L)]; rcx := 0 |} (after_terminator s2) elifs spans.
+  (c3 = true -> cntE l (edges s2) = (cntE l (edges s) + cxv)%nat) ->
+  S_out s l L {| rn := false; rk := rkv; rmarks := [(k, L)]; rcx := cxv |} (after_terminator s2) elifs spans c3.
 Proof.
-  intros I Hsp N2 C2 L2 X2 B2 M2 HD1 HD2 L Hsound Hrk Hbrk Hfin.
+  intros I Hsp N2 C2 L2 X2 B2 M2 HD1 HD2 L Hsound Hrk Hbrk Hfin Hcnt.
   pose proof (i_wfb _ I) as Wb. pose proof (i_cur _ I) as Hc.
   unfold after_terminator. rewrite new_block_eq.
   exists (upd l (next s) false).
   assert (A : agree (next s) l (upd l (next s) false)) by (apply agree_upd; lia).
-  split; [exact A|]. split; [|split; [|split; [|split; [|split; [|split]]]]].
+  split; [exact A|]. split; [|split; [|split; [|split; [|split; [|split; [|split]]]]]].
   - split.
     + apply mid_set_cur, mid_nb. exact M2.
     + autorewrite with bst. exact L2.
@@ -464,6 +498,8 @@ Proof.
     autorewrite with plc. rewrite (placed_blocks_eq _ _ _ _ _ B2).
     apply (placed_add_stmt_new s (cur s) (mk k' k' kd)). apply (wb_keys _ Wb). exact Hc.
   - intros k' e' b Hp. autorewrite with plc. rewrite (placed_blocks_eq _ _ _ _ _ B2). apply placed_add_stmt_mono. exact Hp.
+  - intro H3. autorewrite with bst. cbn [rcx]. rewrite <- (Hcnt H3). apply (cntE_agree (next s)); [|exact A].
+    rewrite <- N2. apply (m_bnd _ _ _ M2).
 Qed.
 
 Lemma edges_connect_all s a l t : edges (connect_all s a l t) = edges s ++ map (fun x => (a, x, t)) l.
@@ -473,7 +509,7 @@ Proof.
 Qed.
 
 (* a jump with the edges [cur -> tgts] *)
-Lemma S_jump_all s l k kd tgts ety0 elifs spans rkv :
+Lemma S_jump_all s l k kd tgts ety0 elifs spans rkv cxv c3 :
   inv s -> In (k, k) spans -> (forall v, In v tgts -> v < next s) ->
   let s2 := connect_all (add_stmt s (cur s) (mk k k kd)) (cur s) tgts ety0 in
   let L := l (cur s) in
@@ -481,14 +517,16 @@ Lemma S_jump_all s l k kd tgts ety0 elifs spans rkv :
   (rkv = true -> L = true) ->
   (rkv = true -> noproc s -> forall t, brk_t s = Some t -> In t tgts) ->
   (L = true -> forall f, Cfin f s -> In f tgts) ->
-  S_out s l L {| rn := false; rk := rkv; rmarks := [(k, L)]; rcx := 0 |} (after_terminator s2) elifs spans.
+  (c3 = true -> counted ety0 = false /\ cxv = 0%nat) ->
+  S_out s l L {| rn := false; rk := rkv; rmarks := [(k, L)]; rcx := cxv |} (after_terminator s2) elifs spans c3.
 Proof.
-  intros I Hsp Hlt s2 L H1 H2 H3 H4. pose proof (i_cur _ I) as Hc.
+  intros I Hsp Hlt s2 L H1 H2 H3 H4 H5. pose proof (i_cur _ I) as Hc.
   apply (S_jump s l k kd s2 tgts); try assumption; unfold s2; autorewrite with bst; try reflexivity.
   - apply mid_connect_all; [apply mid_add_stmt, mid_refl_b, I|left; exact Logic.I|exact Hc|exact Hlt].
   - intros u v t Hin. rewrite edges_connect_all in Hin. apply in_app_or in Hin. destruct Hin as [Hin|Hin]; [left; exact Hin|].
     apply in_map_iff in Hin. destruct Hin as (x & Heq & Hx). inversion Heq; subst. right. split; [reflexivity|exact Hx].
   - intros v Hv. exists ety0. rewrite edges_connect_all. apply in_or_app. right. apply in_map_iff. exists v. split; [reflexivity|exact Hv].
+  - intro Hc3. destruct (H5 Hc3) as (Hct & ->). rewrite edges_connect_all, cntE_app, cntE_map_const, Hct. reflexivity.
 Qed.
 
 Lemma connect_as_all s a b t : connect s a b t = connect_all s a [b] t.
@@ -515,6 +553,7 @@ Proof.
   - intros HL f (pre & X & rest & Ex & Hpre & HX & HP & _). left. unfold tgt. rewrite Ex.
     rewrite (return_target_Cfin (cur s) pre X rest f Hpre HX); [reflexivity|].
     apply (i_fincur _ I X f); [rewrite Ex; apply in_or_app; right; left; reflexivity|exact HP|exact HX].
+  - intros _. split; reflexivity.
 Qed.
 
 Lemma S_raise k : S_stmt (Raise k).
@@ -526,7 +565,7 @@ Proof.
                | (None, Some fb) => match x_handlers fb with [] => [exit_id] | hs => hs end
                | (None, None) => [exit_id]
                end).
-  match goal with |- S_out _ _ _ _ (after_terminator ?X) _ _ =>
+  match goal with |- S_out _ _ _ _ (after_terminator ?X) _ _ _ =>
     replace X with (connect_all (add_stmt s (cur s) (mk k k KRaise)) (cur s) tgts EException) end.
   2:{ unfold tgts. destruct (raise_target _ _) as [[f|] [fb|]]; try reflexivity. destruct (x_handlers fb); reflexivity. }
   destruct (raise_target_in (excs s) None) as (R1 & R2).
@@ -549,6 +588,7 @@ Proof.
   - intros HL f (pre & X & rest & Ex & Hpre & HX & HP & _). unfold tgts.
     pose proof (raise_target_Cfin pre X rest f None Hpre HX HP) as Hr. rewrite <- Ex in Hr.
     destruct (raise_target (excs s) None) as [[g|] fb]; cbn [fst] in Hr; [inversion Hr; left; reflexivity|discriminate].
+  - discriminate.
 Qed.
 
 Lemma S_break k : S_stmt (Break k).
@@ -559,7 +599,7 @@ Proof.
   destruct (loops s) as [|lp ls] eqn:El; [contradiction|].
   destruct (wb_loops _ Wb lp) as (Hl1 & Hl2 & Hl3); [rewrite El; left; reflexivity|].
   set (tgt := match jump_target (in_loop_frames s lp) with Some f => f | None => l_exit lp end).
-  match goal with |- S_out _ _ _ _ (after_terminator ?X) _ _ =>
+  match goal with |- S_out _ _ _ _ (after_terminator ?X) _ _ _ =>
     replace X with (connect_all (add_stmt s (cur s) (mk k k KBreak)) (cur s) [tgt] EBreak) end.
   2:{ unfold tgt, in_loop_frames. autorewrite with bst. destruct (jump_target _); reflexivity. }
   apply S_jump_all; try assumption; try (left; reflexivity).
@@ -573,6 +613,7 @@ Proof.
   - exact (fun H => H).
   - intros _ _ t Ht. unfold brk_t in Ht. rewrite El in Ht. inversion Ht. left. reflexivity.
   - intros HL f Hf. left. unfold tgt. rewrite (brk_t_Cfin s f lp ls El Hf). reflexivity.
+  - intros _. split; reflexivity.
 Qed.
 
 Lemma S_continue k : S_stmt (Continue k).
@@ -583,7 +624,7 @@ Proof.
   destruct (loops s) as [|lp ls] eqn:El; [contradiction|].
   destruct (wb_loops _ Wb lp) as (Hl1 & Hl2 & Hl3); [rewrite El; left; reflexivity|].
   set (tgt := match jump_target (in_loop_frames s lp) with Some f => f | None => l_header lp end).
-  match goal with |- S_out _ _ _ _ (after_terminator ?X) _ _ =>
+  match goal with |- S_out _ _ _ _ (after_terminator ?X) _ _ _ =>
     replace X with (connect_all (add_stmt s (cur s) (mk k k KContinue)) (cur s) [tgt] EContinue) end.
   2:{ unfold tgt, in_loop_frames. autorewrite with bst. destruct (jump_target _); reflexivity. }
   apply S_jump_all; try assumption; try (left; reflexivity).
@@ -596,6 +637,7 @@ Proof.
   - discriminate.
   - discriminate.
   - intros HL f Hf. left. unfold tgt. rewrite (brk_t_Cfin s f lp ls El Hf). reflexivity.
+  - intros _. split; reflexivity.
 Qed.
 
 Lemma S_simple_like x k : (forall s, process_stmt' s x = add_stmt s (cur s) (mk k (end_stmt x) KOther)) ->
@@ -615,6 +657,19 @@ Ltac keep_arith :=
   end.
 Ltac flia := keep_arith; lia.
 Ltac uflia := autorewrite with bst; flia.
+(* counting: expose the edge list as appends of single edges *)
+Ltac cnt_norm := autorewrite with bst; rewrite ?cntE_snoc; cbn [counted rcx].
+Ltac cnt_fin :=
+  unfold gate; cbn [arms_length rcx];
+  repeat match goal with x := _ : res |- _ => progress unfold x end;
+  repeat match goal with x := _ : option res |- _ => progress unfold x end;
+  repeat match goal with x := _ : bool |- _ => progress unfold x end;
+  repeat match goal with |- context [if ?b then _ else _] => destruct b end; flia.
+Ltac c03_split H :=
+  cbn [c03_stmt c03_block c03_arms c03_oblock] in H; rewrite ?andb_true_r in H;
+  repeat match type of H with
+  | (_ && _ = true) => let H' := fresh H in apply andb_true_iff in H; destruct H as (H & H')
+  end.
 
 (* ---- keys of the block table stay below [next] ---- *)
 Definition klt (s : st) : Prop := forall b, haskey s b -> b < next s.
@@ -678,7 +733,8 @@ Definition B_out (s t : st) (c : N) (l l1 : lam) (b : block) (s' : st) (l2 : lam
      (Lc = true -> rn rb = false -> forall f, Cfin f s -> reach E f)) /\
   (forall k e b0, placed s' k e b0 -> placed t k e b0 \/ (k = 0 /\ e = 0) \/ (In (k, l2 b0) (rmarks rb) /\ In (k, e) (spans_block b))) /\
   (forall k m, In (k, m) (rmarks rb) -> In k (elif_block b) \/ exists e b0, placed s' k e b0 /\ l2 b0 = m) /\
-  (forall k e b0, placed t k e b0 -> placed s' k e b0).
+  (forall k e b0, placed t k e b0 -> placed s' k e b0) /\
+  (c03_block b = true -> cntE l2 (edges s') = (cntE l1 (edges t) + rcx rb)%nat).
 
 Lemma S_branch s t c l l1 inl b :
   S_block b -> inv s -> mid anyb s t -> loops t = loops s -> excs t = excs s -> klt t -> next s <= c -> c < next t ->
@@ -687,10 +743,10 @@ Lemma S_branch s t c l l1 inl b :
 Proof.
   intros Sb I M Lt Xt K H1 H2 A1 Hlok Hinl.
   assert (It : inv (set_cur t c)) by (apply (inv_fresh s); assumption).
-  destruct (Sb (set_cur t c) l1 inl It Hlok) as (l2 & A2 & F & C & So & Co & Da & Db & Dc); [autorewrite with bst; rewrite Lt; exact Hinl|].
+  destruct (Sb (set_cur t c) l1 inl It Hlok) as (l2 & A2 & F & C & So & Co & Da & Db & Dc & Cn); [autorewrite with bst; rewrite Lt; exact Hinl|].
   autorewrite with bst in *. exists l2. unfold B_out. cbv zeta.
   pose proof (m_next _ _ _ (lf_mid _ _ F)) as N'. autorewrite with bst in N'.
-  split; [exact A2|]. split; [exact F|]. split; [exact C|]. split; [exact N'|]. split; [exact (inv_lframe _ _ It F)|]. split; [|split; [|split; [|split]]].
+  split; [exact A2|]. split; [exact F|]. split; [exact C|]. split; [exact N'|]. split; [exact (inv_lframe _ _ It F)|]. split; [|split; [|split; [|split; [|split]]]].
   - intros Hctx Hb Cl. apply So; [| |exact Cl].
     + intro HL. apply (ctx_ok_agree l l1 s); [apply Hctx; exact HL|exact I|exact A1|exact Lt|exact Xt].
     + intro Hk. apply (brk_ok_agree l l1 s); [apply Hb; exact Hk|exact I|exact A1|exact Lt].
@@ -705,6 +761,7 @@ Proof.
   - exact Da.
   - exact Db.
   - exact Dc.
+  - exact Cn.
 Qed.
 
 Lemma S_if_nil_none k body : S_block body -> S_stmt (If k body ANil ONone).
@@ -724,14 +781,14 @@ Proof.
   assert (I4 : inv (set_cur s4 (next s))) by (apply (inv_fresh s); try assumption; try reflexivity; flia).
   assert (A1 : agree (next s) l l1).
   { intros b Hb. unfold l1. lev. reflexivity. }
-  destruct (Sb (set_cur s4 (next s)) l1 inl I4 Hlok) as (l2 & A2 & F5 & C5 & So5 & Co5 & Da & Db & Dc); [exact Hinl|].
+  destruct (Sb (set_cur s4 (next s)) l1 inl I4 Hlok) as (l2 & A2 & F5 & C5 & So5 & Co5 & Da & Db & Dc & Cn); [exact Hinl|].
   rewrite <- Es5p in *. autorewrite with bst in *.
   assert (Hl1t : l1 (next s) = L) by (unfold l1; lev; reflexivity).
   rewrite Hl1t in *. fold rb in C5, So5, Co5, Da, Db.
   pose proof (m_next _ _ _ (lf_mid _ _ F5)) as N5. autorewrite with bst in N5. rewrite N4 in *.
   exists l2. split; [eapply agree_trans; [exact A1|exact A2|flia]|].
   cbn [flow_stmt flow_arms flow_oblock opt_n rn rk rmarks]. fold L rb. rewrite !orb_false_r, !app_nil_r.
-  split; [|split; [|split; [|split; [|split; [|split]]]]].
+  split; [|split; [|split; [|split; [|split; [|split; [|split]]]]]].
   - apply lframe_mid; autorewrite with bst; try (flia).
     + apply mid_connect; [apply mid_connect; [|left; exact Logic.I|uflia|uflia]|left; exact Logic.I|autorewrite with bst; apply F5|uflia].
       apply (mid_transA _ anyb s (set_cur s4 (next s))); [apply mid_set_cur; exact M4|apply F5|intros; left; exact Logic.I].
@@ -777,6 +834,9 @@ Proof.
     + destruct (Db k' m Hin) as [He|(e' & b & Hp & Hm)]; [left; cbn [elif_stmt map_arms_ids elif_arms elif_oblock]; rewrite !app_nil_r; exact He|].
       right. exists e', b. split; [autorewrite with plc; exact Hp|exact Hm].
   - intros k' e' b Hp. autorewrite with plc. apply Dc. unfold s4. autorewrite with plc. apply placed_add_stmt_mono. exact Hp.
+  - intro H3. c03_split H3. cnt_norm. rewrite (Cn H3). unfold s4. cnt_norm.
+    rewrite (cntE_agree (next s) l l1 _ (wb_bnd _ Wb) A1). unfold l1. lev. fold L. fold rb.
+    cnt_fin.
 Qed.
 
 Lemma S_if_nil_some k body eb : S_block body -> S_block eb -> S_stmt (If k body ANil (OSome eb)).
@@ -796,7 +856,7 @@ Proof.
   assert (N4 : next s4 = N.succ (N.succ (next s))) by reflexivity.
   assert (A1 : agree (next s) l l1) by (intros b Hb; unfold l1; lev; reflexivity).
   destruct (S_branch s s4 (next s) l l1 inl body Sb I M4 eq_refl eq_refl K4) as (l2 & B5); try assumption; try flia.
-  rewrite <- Es5p in B5. destruct B5 as (A2 & F5 & C5 & N5 & I5 & So5 & Co5 & Da5 & Db5 & Dc5).
+  rewrite <- Es5p in B5. destruct B5 as (A2 & F5 & C5 & N5 & I5 & So5 & Co5 & Da5 & Db5 & Dc5 & Cn5).
   assert (Hl1t : l1 (next s) = L) by (unfold l1; lev; reflexivity).
   rewrite Hl1t in *. fold rb in C5, So5, Co5, Da5, Db5. rewrite N4 in *.
   set (s7 := connect (nb s5p) (cur s) (next s5p) ECondFalse) in *.
@@ -811,14 +871,14 @@ Proof.
   destruct (S_branch s s7 (next s5p) l l3 inl eb Se I M7) as (l4 & B8); try assumption; try flia.
   { unfold s7. autorewrite with bst. apply F5. }
   { unfold s7. autorewrite with bst. apply F5. }
-  rewrite <- Es8p in B8. destruct B8 as (A4 & F8 & C8 & N8 & I8 & So8 & Co8 & Da8 & Db8 & Dc8).
+  rewrite <- Es8p in B8. destruct B8 as (A4 & F8 & C8 & N8 & I8 & So8 & Co8 & Da8 & Db8 & Dc8 & Cn8).
   assert (Hl3e : l3 (next s5p) = L) by (unfold l3; lev; reflexivity).
   rewrite Hl3e in *. fold re in C8, So8, Co8, Da8, Db8. rewrite N7 in *.
   pose proof (lf_curlt _ _ F5) as Hc5. pose proof (lf_curlt _ _ F8) as Hc8.
   assert (Hcu5 : next s <= cur s5p) by (destruct (lf_cur _ _ F5) as [H|H]; autorewrite with bst in H; flia).
   exists l4. split; [intros b Hb; lev; unfold l3; lev; unfold l1; lev; reflexivity|].
   cbn [flow_stmt flow_arms flow_oblock opt_n rn rk rmarks]. fold L rb re. rewrite !orb_false_r, !app_nil_l.
-  split; [|split; [|split; [|split; [|split; [|split]]]]].
+  split; [|split; [|split; [|split; [|split; [|split; [|split]]]]]].
   - apply lframe_mid; autorewrite with bst; try flia.
     + apply mid_connect; [apply mid_connect; [|left; exact Logic.I|uflia|uflia]|left; exact Logic.I|uflia|uflia].
       apply (mid_transA _ anyb s (set_cur s7 (next s5p))); [apply mid_set_cur; exact M7|apply F8|intros; left; exact Logic.I].
@@ -887,10 +947,15 @@ Proof.
         right. exists e', b. split; [autorewrite with plc; exact Hp|exact Hm].
   - intros k' e' b Hp. autorewrite with plc. apply Dc8. unfold s7. autorewrite with plc. apply Dc5. unfold s4. autorewrite with plc.
     apply placed_add_stmt_mono. exact Hp.
+  - intro H3. c03_split H3. cnt_norm. rewrite (Cn8 H0). unfold s7. cnt_norm.
+    rewrite (cntE_agree (next s5p) l2 l3); [|apply (wb_bnd _ (i_wfb _ I5))|unfold l3; apply agree_upd; flia].
+    rewrite (Cn5 H3). unfold s4. cnt_norm. rewrite (cntE_agree (next s) l l1 _ (wb_bnd _ Wb) A1).
+    unfold l1. lev. fold L. cnt_fin.
 Qed.
 
 Definition okk (o : option res) : bool := match o with Some r => rk r | None => false end.
 Definition onm (o : option res) : list (N * bool) := match o with Some r => rmarks r | None => [] end.
+Definition ocx (o : option res) : nat := match o with Some r => rcx r | None => 0%nat end.
 
 (* the final else of an elif chain: [c] is the last condition block, [t] the state after its then-body *)
 Definition K_out (t : st) (c merge : N) (l : lam) (L : bool) (els : oblock) (t' : st) (l' : lam) : Prop :=
@@ -904,7 +969,8 @@ Definition K_out (t : st) (c merge : N) (l : lam) (L : bool) (els : oblock) (t' 
      (okk re = true -> noproc t -> forall t0, brk_t t = Some t0 -> reach E t0)) /\
   (forall k e b0, placed t' k e b0 -> placed t k e b0 \/ (k = 0 /\ e = 0) \/ (In (k, l' b0) (onm re) /\ In (k, e) (spans_oblock els))) /\
   (forall k m, In (k, m) (onm re) -> In k (elif_oblock els) \/ exists e b0, placed t' k e b0 /\ l' b0 = m) /\
-  (forall k e b0, placed t k e b0 -> placed t' k e b0).
+  (forall k e b0, placed t k e b0 -> placed t' k e b0) /\
+  (c03_oblock els = true -> cntE l' (edges t') = (cntE l (edges t) + ocx re)%nat).
 
 Lemma S_kelse els merge t c l inl :
   S_oblock els -> inv t -> c < next t -> merge < next t -> lok_oblock inl els = true -> (inl = true -> loops t <> []) ->
@@ -915,13 +981,14 @@ Proof.
   - exists l. unfold K_out. cbn [flow_oblock okk onm opt_n spans_oblock elif_oblock]. autorewrite with bst.
     split; [apply agree_refl|]. split; [apply mid_connect; [apply mid_refl_b; exact Wb|left; exact Logic.I|exact Hc|exact Hm]|].
     split; [reflexivity|]. split; [reflexivity|]. split; [apply klt_connect; exact (i_klt _ It)|]. split; [flia|].
-    split; [|split; [|split; [|split]]].
+    split; [|split; [|split; [|split; [|split]]]].
     + intros _ _ Hmg Cl. rewrite closed_snoc. split; [exact Cl|exact Hmg].
     + intros E HE HR. split; [intros b0 H1 H2; flia|]. split; [|discriminate].
       intro HL. eapply reach_step; [apply HR; exact HL|]. apply HE. apply in_or_app. right. left. reflexivity.
     + intros k e b0 Hp. autorewrite with plc in Hp. left. exact Hp.
     + intros k m [].
     + intros k e b0 Hp. autorewrite with plc. exact Hp.
+    + intros _. cnt_norm. cbn [ocx]. flia.
   - rewrite new_block_eq. cbv beta iota zeta. cbn [S_oblock lok_oblock] in Se, Hlok.
     set (t2 := connect (nb t) c (next t) ECondFalse).
     set (l1 := upd l (next t) L).
@@ -930,14 +997,14 @@ Proof.
     assert (A1 : agree (next t) l l1) by (apply agree_upd; flia).
     destruct (S_branch t t2 (next t) l l1 inl eb Se It M2 eq_refl eq_refl K2) as (l2 & B3); try assumption; try flia; [unfold t2; uflia|].
     set (t3 := process_block' (set_cur t2 (next t)) eb) in *.
-    destruct B3 as (A2 & F3 & C3 & N3 & I3 & So3 & Co3 & Da3 & Db3 & Dc3).
+    destruct B3 as (A2 & F3 & C3 & N3 & I3 & So3 & Co3 & Da3 & Db3 & Dc3 & Cn3).
     assert (Hl1 : l1 (next t) = L) by (unfold l1; lev; reflexivity). rewrite Hl1 in *.
     set (re := flow_block L eb) in *.
     assert (N2 : next t2 = N.succ (next t)) by reflexivity. rewrite N2 in *.
     pose proof (lf_curlt _ _ F3) as Hc3.
     exists l2. unfold K_out. cbn [flow_oblock okk onm opt_n spans_oblock elif_oblock]. fold re. autorewrite with bst.
     split; [intros b Hb; lev; unfold l1; lev; reflexivity|].
-    split; [|split; [|split; [|split; [|split; [|split; [|split; [|split; [|split]]]]]]]].
+    split; [|split; [|split; [|split; [|split; [|split; [|split; [|split; [|split; [|split]]]]]]]]].
     + apply mid_connect; [|left; exact Logic.I|exact Hc3|flia].
       apply (mid_transA _ anyb t (set_cur t2 (next t))); [apply mid_set_cur; exact M2|apply F3|intros; left; exact Logic.I].
     + rewrite (lf_loops _ _ F3). reflexivity.
@@ -964,6 +1031,8 @@ Proof.
     + intros k m Hin. destruct (Db3 k m Hin) as [He|(e & b0 & Hp & Hm')]; [left; exact He|]. right. exists e, b0.
       split; [autorewrite with plc; exact Hp|exact Hm'].
     + intros k e b0 Hp. autorewrite with plc. apply Dc3. unfold t2. autorewrite with plc. exact Hp.
+    + intro H3. cbn [c03_oblock] in H3. cnt_norm. rewrite (Cn3 H3). unfold t2. cnt_norm.
+      rewrite (cntE_agree (next t) l l1 _ (wb_bnd _ Wb) A1). cbn [ocx]. cnt_fin.
 Qed.
 
 (* an elif chain processed from the block [cur s] (labelled [L]), with the final else [els], joining at [merge] *)
@@ -980,7 +1049,9 @@ Definition E_out (s : st) (merge : N) (l : lam) (L : bool) (a : arms) (els : obl
      (In (k, l' b0) (rmarks ra ++ onm re) /\ In (k, e) (spans_elif a ++ spans_oblock els))) /\
   (forall k m, In (k, m) (rmarks ra ++ onm re) ->
      In k (map_arms_ids a ++ elif_arms a ++ elif_oblock els) \/ exists e b0, placed s' k e b0 /\ l' b0 = m) /\
-  (forall k e b0, placed s k e b0 -> placed s' k e b0).
+  (forall k e b0, placed s k e b0 -> placed s' k e b0) /\
+  (c03_arms a = true -> c03_oblock els = true ->
+     cntE l' (edges s') = (cntE l (edges s) + gate L (arms_length a) + rcx ra + ocx re)%nat).
 
 Definition S_elif (a : arms) : Prop := forall els merge s l inl,
   S_oblock els -> inv s -> merge < next s -> a <> ANil ->
@@ -1003,7 +1074,7 @@ Proof.
   assert (N3 : next s3 = N.succ (next s)) by reflexivity.
   assert (A1 : agree (next s) l l1) by (apply agree_upd; flia).
   destruct (S_branch s s3 (next s) l l1 inl b1 Sb I M3 eq_refl eq_refl K3) as (l2 & B4); try assumption; try flia.
-  rewrite <- Es4p in B4. destruct B4 as (A2 & F4 & C4 & N4 & I4 & So4 & Co4 & Da4 & Db4 & Dc4).
+  rewrite <- Es4p in B4. destruct B4 as (A2 & F4 & C4 & N4 & I4 & So4 & Co4 & Da4 & Db4 & Dc4 & Cn4).
   assert (Hl1 : l1 (next s) = L) by (unfold l1; lev; reflexivity). rewrite Hl1 in *. fold r1 in C4, So4, Co4, Da4, Db4.
   rewrite N3 in *.
   pose proof (lf_curlt _ _ F4) as Hc4.
@@ -1028,16 +1099,18 @@ Proof.
         (In (k, l3 b0) (rmarks r2 ++ onm re) /\ In (k, e) (spans_elif rest ++ spans_oblock els))) /\
      (forall k m, In (k, m) (rmarks r2 ++ onm re) ->
         In k (map_arms_ids rest ++ elif_arms rest ++ elif_oblock els) \/ exists e b0, placed s5 k e b0 /\ l3 b0 = m) /\
-     (forall k e b0, placed s4p k e b0 -> placed s5 k e b0)).
+     (forall k e b0, placed s4p k e b0 -> placed s5 k e b0) /\
+     (c03_arms rest = true -> c03_oblock els = true ->
+        cntE l3 (edges s5) = (cntE l2 (edges s4p) + gate L (arms_length rest) + rcx r2 + ocx re)%nat)).
   { assert (Hlc : l2 (cur s) = L) by (lev; unfold l1; lev; reflexivity).
     assert (Hlm : l2 merge = l merge) by (lev; unfold l1; lev; reflexivity).
     assert (Ag2 : agree (next s) l l2) by (intros b Hb; lev; unfold l1; lev; reflexivity).
     unfold s5. destruct rest as [|k2 b2 rest'].
     - destruct (S_kelse els merge s4p (cur s) l2 inl Se I4) as (l3 & K); try assumption; try flia; [rewrite L4; exact Hinl|].
-      rewrite Hlc in K. destruct K as (A3 & M5 & L5 & X5 & K5 & N5 & So5 & Co5 & Da5 & Db5 & Dc5).
+      rewrite Hlc in K. destruct K as (A3 & M5 & L5 & X5 & K5 & N5 & So5 & Co5 & Da5 & Db5 & Dc5 & Cn5).
       exists l3. unfold r2. cbn [flow_arms rn rk rmarks spans_elif map_arms_ids elif_arms]. fold re. cbn [orb app].
       split; [exact A3|]. split; [exact M5|]. split; [congruence|]. split; [congruence|]. split; [exact K5|]. split; [exact N5|].
-      split; [|split; [|split; [|split]]].
+      split; [|split; [|split; [|split; [|split]]]].
       + intros Hctx Hb Hmg Cl. apply So5; [| | |exact Cl].
         * intro HL. apply (ctx_ok_agree l l2 s); [apply Hctx; exact HL|exact I|exact Ag2|exact L4|exact X4].
         * intro Hk. apply (brk_ok_agree l l2 s); [apply Hb; exact Hk|exact I|exact Ag2|exact L4].
@@ -1047,6 +1120,7 @@ Proof.
       + exact Da5.
       + exact Db5.
       + exact Dc5.
+      + intros _ H3. rewrite (Cn5 H3). fold re. cbn [arms_length]. cnt_fin.
     - set (t2 := connect (nb s4p) (cur s) (next s4p) ECondFalse).
       set (l2' := upd l2 (next s4p) L).
       assert (M2 : mid anyb s4p t2) by (apply mid_connect; [apply mid_nb, mid_refl_b; exact (i_wfb _ I4)|left; exact Logic.I|uflia|uflia]).
@@ -1056,13 +1130,13 @@ Proof.
       { unfold t2. uflia. }
       { unfold t2. autorewrite with bst. rewrite L4. exact Hinl. }
       autorewrite with bst in EO. unfold l2' in EO at 2. rewrite upd_same in EO.
-      destruct EO as (A3 & M5 & L5 & X5 & K5 & N5 & C5 & So5 & Co5 & Da5 & Db5 & Dc5).
+      destruct EO as (A3 & M5 & L5 & X5 & K5 & N5 & C5 & So5 & Co5 & Da5 & Db5 & Dc5 & Cn5).
       autorewrite with bst in *. fold r2 re in So5, Co5, Da5, Db5.
       assert (Nt2 : next t2 = N.succ (next s4p)) by reflexivity. rewrite Nt2 in *.
       exists l3. split; [intros b Hb; lev; unfold l2'; lev; reflexivity|].
       split; [apply (mid_transA _ anyb s4p (set_cur t2 (next s4p))); [apply mid_set_cur; exact M2|exact M5|intros; left; exact Logic.I]|].
       split; [rewrite L5; unfold t2; autorewrite with bst; exact L4|]. split; [rewrite X5; unfold t2; autorewrite with bst; exact X4|].
-      split; [exact K5|]. split; [flia|]. split; [|split; [|split; [|split]]].
+      split; [exact K5|]. split; [flia|]. split; [|split; [|split; [|split; [|split]]]].
       + intros Hctx Hb Hmg Cl. apply So5.
         * intro HL. apply (ctx_ok_agree l l2' s); [apply Hctx; exact HL|exact I| |unfold t2; autorewrite with bst; exact L4|unfold t2; autorewrite with bst; exact X4].
           intros b Hb'. unfold l2'. lev. unfold l1. lev. reflexivity.
@@ -1087,12 +1161,15 @@ Proof.
       + intros k e b0 Hp. destruct (Da5 k e b0 Hp) as [Hp0|[Hk|Hm']]; [|right; left; exact Hk|right; right; exact Hm'].
         unfold t2 in Hp0. autorewrite with plc in Hp0. left. exact Hp0.
       + exact Db5.
-      + intros k e b0 Hp. apply Dc5. unfold t2. autorewrite with plc. exact Hp. }
-  destruct H5 as (l3 & A3 & M5 & L5 & X5 & K5 & N5 & So5 & Co5 & Da5 & Db5 & Dc5).
+      + intros k e b0 Hp. apply Dc5. unfold t2. autorewrite with plc. exact Hp.
+      + intros H3 H4. rewrite (Cn5 H3 H4). unfold t2. cnt_norm.
+        rewrite (cntE_agree (next s4p) l2 l2'); [|apply (wb_bnd _ (i_wfb _ I4))|unfold l2'; apply agree_upd; flia].
+        fold r2 re. cnt_fin. }
+  destruct H5 as (l3 & A3 & M5 & L5 & X5 & K5 & N5 & So5 & Co5 & Da5 & Db5 & Dc5 & Cn5).
   fold s5. clearbody s5.
   exists l3. unfold E_out. cbn [flow_arms rn rk rmarks spans_elif map_arms_ids elif_arms]. fold L r1 r2 re. autorewrite with bst.
   split; [intros b Hb; lev; unfold l1; lev; reflexivity|].
-  split; [|split; [|split; [|split; [|split; [|split; [reflexivity|split; [|split; [|split; [|split]]]]]]]]].
+  split; [|split; [|split; [|split; [|split; [|split; [reflexivity|split; [|split; [|split; [|split; [|split]]]]]]]]]].
   - apply mid_set_cur, mid_connect; [|left; exact Logic.I|flia|flia].
     apply (mid_transA _ anyb s s4p); [exact M4|exact M5|intros; left; exact Logic.I].
   - exact L5.
@@ -1154,6 +1231,9 @@ Proof.
            ++ apply in_or_app. right. exact He.
         -- right. exists e, b0. split; [autorewrite with plc; exact Hp|exact Hm'].
   - intros k e b0 Hp. autorewrite with plc. apply Dc5, Dc4. unfold s3. autorewrite with plc. apply placed_add_stmt_mono. exact Hp.
+  - intros H3 H4. cbn [c03_arms] in H3. apply andb_true_iff in H3. destruct H3 as (H3a & H3b).
+    cnt_norm. rewrite (Cn5 H3b H4), (Cn4 H3a). unfold s3. cnt_norm.
+    rewrite (cntE_agree (next s) l l1 _ (wb_bnd _ Wb) A1). unfold l1. lev. fold L. cbn [arms_length]. cnt_fin.
 Qed.
 
 Lemma S_if_elif k body k1 b1 rest els :
@@ -1174,7 +1254,7 @@ Proof.
   assert (N4 : next s4 = N.succ (N.succ (next s))) by reflexivity.
   assert (A1 : agree (next s) l l1) by (intros b Hb; unfold l1; lev; reflexivity).
   destruct (S_branch s s4 (next s) l l1 inl body Sb I M4 eq_refl eq_refl K4) as (l2 & B5); try assumption; try flia.
-  rewrite <- Es5p in B5. destruct B5 as (A2 & F5 & C5 & N5 & I5 & So5 & Co5 & Da5 & Db5 & Dc5).
+  rewrite <- Es5p in B5. destruct B5 as (A2 & F5 & C5 & N5 & I5 & So5 & Co5 & Da5 & Db5 & Dc5 & Cn5).
   assert (Hl1t : l1 (next s) = L) by (unfold l1; lev; reflexivity).
   rewrite Hl1t in *. fold rb in C5, So5, Co5, Da5, Db5. rewrite N4 in *.
   set (s7 := connect (nb s5p) (cur s) (next s5p) ECondFalse) in *.
@@ -1193,7 +1273,7 @@ Proof.
   { autorewrite with bst. flia. }
   { autorewrite with bst. rewrite L7. exact Hinl. }
   rewrite <- Es8p in EO. autorewrite with bst in EO. unfold l3 in EO at 2. rewrite upd_same in EO.
-  destruct EO as (A4 & M8 & L8 & X8 & K8 & N8 & C8 & So8 & Co8 & Da8 & Db8 & Dc8).
+  destruct EO as (A4 & M8 & L8 & X8 & K8 & N8 & C8 & So8 & Co8 & Da8 & Db8 & Dc8 & Cn8).
   autorewrite with bst in *. fold ra re in So8, Co8, Da8, Db8. rewrite N7 in *.
   pose proof (lf_curlt _ _ F5) as Hc5.
   assert (Hcu5 : next s <= cur s5p) by (destruct (lf_cur _ _ F5) as [H|H]; autorewrite with bst in H; flia).
@@ -1203,7 +1283,7 @@ Proof.
        rmarks := (k, L) :: rmarks rb ++ rmarks ra ++ onm re;
        rcx := rcx (flow_stmt L (If k body a els)) |}.
   cbn [rn rk rmarks].
-  split; [|split; [|split; [|split; [|split; [|split]]]]].
+  split; [|split; [|split; [|split; [|split; [|split; [|split]]]]]].
   - apply lframe_mid; autorewrite with bst; try flia.
     + apply mid_connect; [|left; exact Logic.I|uflia|uflia].
       apply (mid_transA _ anyb s (set_cur s7 (next s5p))); [apply mid_set_cur; exact M7|exact M8|intros; left; exact Logic.I].
@@ -1276,6 +1356,12 @@ Proof.
         right. exists e', b. split; [autorewrite with plc; exact Hp|exact Hm].
   - intros k' e' b Hp. autorewrite with plc. apply Dc8. unfold s7. autorewrite with plc. apply Dc5. unfold s4. autorewrite with plc.
     apply placed_add_stmt_mono. exact Hp.
+  - intro H3. cbn [c03_stmt] in H3. apply andb_true_iff in H3. destruct H3 as (H3 & H3c).
+    apply andb_true_iff in H3. destruct H3 as (H3a & H3b).
+    cnt_norm. rewrite (Cn8 H3b H3c). unfold s7. cnt_norm.
+    rewrite (cntE_agree (next s5p) l2 l3); [|apply (wb_bnd _ (i_wfb _ I5))|unfold l3; apply agree_upd; flia].
+    rewrite (Cn5 H3a). unfold s4. cnt_norm. rewrite (cntE_agree (next s) l l1 _ (wb_bnd _ Wb) A1).
+    unfold l1. lev. fold L. cbn [flow_stmt rcx]. fold rb ra re. fold (ocx re). cnt_fin.
 Qed.
 
 (* ---- loops: the body, processed with the loop context pushed ---- *)
@@ -1290,7 +1376,8 @@ Definition LP_out (s : st) (k e : N) (hasel : bool) (l l1 : lam) (body : block) 
      (rn rb = true -> reach E (cur s10)) /\ (rk rb = true -> reach E exitb)) /\
   (forall k' e' b0, placed s10 k' e' b0 -> placed s9 k' e' b0 \/ (k' = 0 /\ e' = 0) \/ (In (k', l2 b0) (rmarks rb) /\ In (k', e') (spans_block body))) /\
   (forall k' m, In (k', m) (rmarks rb) -> In k' (elif_block body) \/ exists e' b0, placed s10 k' e' b0 /\ l2 b0 = m) /\
-  (forall k' e' b0, placed s9 k' e' b0 -> placed s10 k' e' b0).
+  (forall k' e' b0, placed s9 k' e' b0 -> placed s10 k' e' b0) /\
+  (c03_block body = true -> cntE l2 (edges s10) = (cntE l1 (edges s9) + rcx rb)%nat).
 
 Lemma loop_s9_facts s k e hasel : inv s ->
   let s9 := loop_s9 s k e hasel in
@@ -1349,7 +1436,7 @@ Proof.
     - autorewrite with bst. flia.
     - exact K9.
     - autorewrite with bst. rewrite X9. intros x f Hx _ Hf. destruct (wb_fin _ Wb x Hx) as (Q & _). specialize (Q f Hf). flia. }
-  destruct (Sb (set_cur s9 (N.succ (next s))) l1 true I9 Hlok) as (l2 & A2 & F & C & So & Co & Da & Db & Dc).
+  destruct (Sb (set_cur s9 (N.succ (next s))) l1 true I9 Hlok) as (l2 & A2 & F & C & So & Co & Da & Db & Dc & Cn).
   { intros _. autorewrite with bst. rewrite L9. discriminate. }
   autorewrite with bst in *. rewrite Hbb in *. fold rb in C, So, Co, Da, Db.
   pose proof (m_next _ _ _ (lf_mid _ _ F)) as N10. autorewrite with bst in N10.
@@ -1357,7 +1444,7 @@ Proof.
   split; [exact A2|]. split; [exact F|]. split; [exact C|]. split; [exact (inv_lframe _ _ I9 F)|].
   split; [rewrite (lf_loops _ _ F); autorewrite with bst; exact L9|]. split; [rewrite (lf_excs _ _ F); autorewrite with bst; exact X9|].
   split; [exact N10|]. split; [destruct (lf_cur _ _ F) as [Q|Q]; autorewrite with bst in Q; [left; exact Q|right; exact Q]|].
-  split; [|split; [|split; [exact Da|split; [exact Db|exact Dc]]]].
+  split; [|split; [|split; [exact Da|split; [exact Db|split; [exact Dc|exact Cn]]]]].
   - intros Hctx Cl. apply So; [| |exact Cl].
     + intro HL. destruct (Hctx HL) as (Q1 & Q2 & Q3 & Q4). unfold ctx_ok. autorewrite with bst. rewrite L9, X9. repeat split.
       * rewrite (A1 exit_id) by (unfold exit_id; flia). exact Q1.
@@ -1393,7 +1480,7 @@ Proof.
   { unfold l1; lev; reflexivity. }
   { unfold l1; lev; reflexivity. }
   { intro Hk. unfold l1. lev. unfold rb, L. rewrite Hk. apply orb_true_r. }
-  rewrite <- Es10p in LP. destruct LP as (A2 & F & C & I10 & L10 & X10 & N10 & K10 & So & Co & Da & Db & Dc).
+  rewrite <- Es10p in LP. destruct LP as (A2 & F & C & I10 & L10 & X10 & N10 & K10 & So & Co & Da & Db & Dc & Cn).
   destruct (loop_s9_facts s k e false I) as (M9 & K9 & N9 & C9 & L9 & X9 & E9 & P9).
   destruct (loop_s6_proj s k e false) as (P1 & _). rewrite P1 in N9. fold L rb in C, So, Co, Da, Db.
   set (s9 := loop_s9 s k e false) in *. rewrite N9 in *.
@@ -1401,7 +1488,7 @@ Proof.
   rewrite L10. cbn [tl].
   exists l2. split; [intros b Hb; lev; unfold l1; lev; reflexivity|].
   cbn [flow_stmt flow_oblock opt_n rn rk rmarks]. fold L rb. rewrite app_nil_r.
-  split; [|split; [|split; [|split; [|split; [|split]]]]].
+  split; [|split; [|split; [|split; [|split; [|split; [|split]]]]]].
   - apply lframe_mid; autorewrite with bst; try flia.
     + apply mid_set_loops, mid_connect; [|left; exact Logic.I|exact Hc10|flia].
       apply (mid_transA _ anyb s (set_cur s9 (N.succ (next s)))); [apply mid_set_cur; exact M9|apply F|intros; left; exact Logic.I].
@@ -1449,6 +1536,8 @@ Proof.
     + destruct (Db k' m Hin) as [He|(e' & b & Hp & Hm)]; [left; cbn [elif_stmt elif_oblock]; rewrite app_nil_r; exact He|].
       right. exists e', b. split; [autorewrite with plc; exact Hp|exact Hm].
   - intros k' e' b Hp. autorewrite with plc. apply Dc. apply P9. apply placed_add_stmt_mono. autorewrite with plc. exact Hp.
+  - intro H3. c03_split H3. cnt_norm. rewrite (Cn H3), E9. cnt_norm.
+    rewrite (cntE_agree (next s) l l1 _ (wb_bnd _ Wb) A1). unfold l1. lev. fold L. cnt_fin.
 Qed.
 
 Lemma S_for_none k body : S_block body -> S_stmt (For k body ONone).
@@ -1466,7 +1555,7 @@ Proof.
   { unfold l1; lev; reflexivity. }
   { unfold l1; lev; reflexivity. }
   { intro Hk. unfold l1. lev. unfold rb, L. rewrite Hk. apply orb_true_r. }
-  rewrite <- Es10p in LP. destruct LP as (A2 & F & C & I10 & L10 & X10 & N10 & K10 & So & Co & Da & Db & Dc).
+  rewrite <- Es10p in LP. destruct LP as (A2 & F & C & I10 & L10 & X10 & N10 & K10 & So & Co & Da & Db & Dc & Cn).
   destruct (loop_s9_facts s k e false I) as (M9 & K9 & N9 & C9 & L9 & X9 & E9 & P9).
   destruct (loop_s6_proj s k e false) as (P1 & _). rewrite P1 in N9. fold L rb in C, So, Co, Da, Db.
   set (s9 := loop_s9 s k e false) in *. rewrite N9 in *.
@@ -1474,7 +1563,7 @@ Proof.
   rewrite L10. cbn [tl].
   exists l2. split; [intros b Hb; lev; unfold l1; lev; reflexivity|].
   cbn [flow_stmt flow_oblock opt_n rn rk rmarks]. fold L rb. rewrite app_nil_r.
-  split; [|split; [|split; [|split; [|split; [|split]]]]].
+  split; [|split; [|split; [|split; [|split; [|split; [|split]]]]]].
   - apply lframe_mid; autorewrite with bst; try flia.
     + apply mid_set_loops, mid_connect; [|left; exact Logic.I|exact Hc10|flia].
       apply (mid_transA _ anyb s (set_cur s9 (N.succ (next s)))); [apply mid_set_cur; exact M9|apply F|intros; left; exact Logic.I].
@@ -1522,6 +1611,8 @@ Proof.
     + destruct (Db k' m Hin) as [He|(e' & b & Hp & Hm)]; [left; cbn [elif_stmt elif_oblock]; rewrite app_nil_r; exact He|].
       right. exists e', b. split; [autorewrite with plc; exact Hp|exact Hm].
   - intros k' e' b Hp. autorewrite with plc. apply Dc. apply P9. apply placed_add_stmt_mono. autorewrite with plc. exact Hp.
+  - intro H3. c03_split H3. cnt_norm. rewrite (Cn H3), E9. cnt_norm.
+    rewrite (cntE_agree (next s) l l1 _ (wb_bnd _ Wb) A1). unfold l1. lev. fold L. cnt_fin.
 Qed.
 
 
@@ -1541,7 +1632,7 @@ Proof.
   { unfold l1, elseb; lev; reflexivity. }
   { unfold l1, elseb; lev; reflexivity. }
   { intro Hk. unfold l1, elseb. lev. unfold rb, L. rewrite Hk. apply orb_true_r. }
-  rewrite <- Es10p in LP. destruct LP as (A2 & F & C & I10 & L10 & X10 & N10 & K10 & So & Co & Da & Db & Dc).
+  rewrite <- Es10p in LP. destruct LP as (A2 & F & C & I10 & L10 & X10 & N10 & K10 & So & Co & Da & Db & Dc & Cn).
   destruct (loop_s9_facts s k e true I) as (M9 & K9 & N9 & C9 & L9 & X9 & E9 & P9).
   destruct (loop_s6_proj s k e true) as (P1 & _). rewrite P1 in N9. fold L rb in C, So, Co, Da, Db.
   set (s9 := loop_s9 s k e true) in *. rewrite N9 in *.
@@ -1555,13 +1646,13 @@ Proof.
   assert (N12 : next s12 = next s10p) by reflexivity.
   assert (Ag2 : agree (next s) l l2) by (intros b Hb; lev; unfold l1, elseb; lev; reflexivity).
   destruct (S_branch s s12 elseb l l2 inl eb Se I M12 eq_refl X10 K12) as (l3 & B); try assumption; try (unfold elseb; flia).
-  rewrite <- Et1p in B. destruct B as (A3 & F1 & C1 & N1 & I1 & So1 & Co1 & Da1 & Db1 & Dc1).
+  rewrite <- Et1p in B. destruct B as (A3 & F1 & C1 & N1 & I1 & So1 & Co1 & Da1 & Db1 & Dc1 & Cn1).
   assert (Hle : l2 elseb = L) by (lev; unfold l1, elseb; lev; reflexivity).
   rewrite Hle in *. fold re in C1, So1, Co1, Da1, Db1. rewrite N12 in *.
   pose proof (lf_curlt _ _ F1) as Hc1.
   exists l3. split; [intros b Hb; lev; unfold l1, elseb; lev; reflexivity|].
   cbn [flow_stmt flow_oblock opt_n rn rk rmarks]. fold L rb re.
-  split; [|split; [|split; [|split; [|split; [|split]]]]].
+  split; [|split; [|split; [|split; [|split; [|split; [|split]]]]]].
   - apply lframe_mid; autorewrite with bst; try flia.
     + apply mid_connect; [|left; exact Logic.I|exact Hc1|flia].
       apply (mid_transA _ anyb s (set_cur s12 elseb)); [apply mid_set_cur; exact M12|apply F1|intros; left; exact Logic.I].
@@ -1628,6 +1719,8 @@ Proof.
         right. exists e', b. split; [autorewrite with plc; exact Hp|exact Hm].
   - intros k' e' b Hp. autorewrite with plc. apply Dc1. unfold s12. autorewrite with plc. apply Dc. apply P9.
     apply placed_add_stmt_mono. autorewrite with plc. exact Hp.
+  - intro H3. c03_split H3. cnt_norm. rewrite (Cn1 H0). unfold s12. cnt_norm. rewrite (Cn H3), E9. cnt_norm.
+    rewrite (cntE_agree (next s) l l1 _ (wb_bnd _ Wb) A1). unfold l1, elseb. lev. fold L. cnt_fin.
 Qed.
 
 Lemma S_for_some k body eb : S_block body -> S_block eb -> S_stmt (For k body (OSome eb)).
@@ -1646,7 +1739,7 @@ Proof.
   { unfold l1, elseb; lev; reflexivity. }
   { unfold l1, elseb; lev; reflexivity. }
   { intro Hk. unfold l1, elseb. lev. unfold rb, L. rewrite Hk. apply orb_true_r. }
-  rewrite <- Es10p in LP. destruct LP as (A2 & F & C & I10 & L10 & X10 & N10 & K10 & So & Co & Da & Db & Dc).
+  rewrite <- Es10p in LP. destruct LP as (A2 & F & C & I10 & L10 & X10 & N10 & K10 & So & Co & Da & Db & Dc & Cn).
   destruct (loop_s9_facts s k e true I) as (M9 & K9 & N9 & C9 & L9 & X9 & E9 & P9).
   destruct (loop_s6_proj s k e true) as (P1 & _). rewrite P1 in N9. fold L rb in C, So, Co, Da, Db.
   set (s9 := loop_s9 s k e true) in *. rewrite N9 in *.
@@ -1660,13 +1753,13 @@ Proof.
   assert (N12 : next s12 = next s10p) by reflexivity.
   assert (Ag2 : agree (next s) l l2) by (intros b Hb; lev; unfold l1, elseb; lev; reflexivity).
   destruct (S_branch s s12 elseb l l2 inl eb Se I M12 eq_refl X10 K12) as (l3 & B); try assumption; try (unfold elseb; flia).
-  rewrite <- Et1p in B. destruct B as (A3 & F1 & C1 & N1 & I1 & So1 & Co1 & Da1 & Db1 & Dc1).
+  rewrite <- Et1p in B. destruct B as (A3 & F1 & C1 & N1 & I1 & So1 & Co1 & Da1 & Db1 & Dc1 & Cn1).
   assert (Hle : l2 elseb = L) by (lev; unfold l1, elseb; lev; reflexivity).
   rewrite Hle in *. fold re in C1, So1, Co1, Da1, Db1. rewrite N12 in *.
   pose proof (lf_curlt _ _ F1) as Hc1.
   exists l3. split; [intros b Hb; lev; unfold l1, elseb; lev; reflexivity|].
   cbn [flow_stmt flow_oblock opt_n rn rk rmarks]. fold L rb re.
-  split; [|split; [|split; [|split; [|split; [|split]]]]].
+  split; [|split; [|split; [|split; [|split; [|split; [|split]]]]]].
   - apply lframe_mid; autorewrite with bst; try flia.
     + apply mid_connect; [|left; exact Logic.I|exact Hc1|flia].
       apply (mid_transA _ anyb s (set_cur s12 elseb)); [apply mid_set_cur; exact M12|apply F1|intros; left; exact Logic.I].
@@ -1733,6 +1826,8 @@ Proof.
         right. exists e', b. split; [autorewrite with plc; exact Hp|exact Hm].
   - intros k' e' b Hp. autorewrite with plc. apply Dc1. unfold s12. autorewrite with plc. apply Dc. apply P9.
     apply placed_add_stmt_mono. autorewrite with plc. exact Hp.
+  - intro H3. c03_split H3. cnt_norm. rewrite (Cn1 H0). unfold s12. cnt_norm. rewrite (Cn H3), E9. cnt_norm.
+    rewrite (cntE_agree (next s) l l1 _ (wb_bnd _ Wb) A1). unfold l1, elseb. lev. fold L. cnt_fin.
 Qed.
 
 
@@ -1743,10 +1838,10 @@ Lemma S_branch0 s t c l l1 inl b :
   exists l2, B_out s t c l l1 b (process_block' (set_cur t c) b) l2.
 Proof.
   intros Sb I It Lt Xt A1 Hlok Hinl.
-  destruct (Sb (set_cur t c) l1 inl It Hlok) as (l2 & A2 & F & C & So & Co & Da & Db & Dc); [autorewrite with bst; rewrite Lt; exact Hinl|].
+  destruct (Sb (set_cur t c) l1 inl It Hlok) as (l2 & A2 & F & C & So & Co & Da & Db & Dc & Cn); [autorewrite with bst; rewrite Lt; exact Hinl|].
   autorewrite with bst in *. exists l2. unfold B_out. cbv zeta.
   pose proof (m_next _ _ _ (lf_mid _ _ F)) as N'. autorewrite with bst in N'.
-  split; [exact A2|]. split; [exact F|]. split; [exact C|]. split; [exact N'|]. split; [exact (inv_lframe _ _ It F)|]. split; [|split; [|split; [|split]]].
+  split; [exact A2|]. split; [exact F|]. split; [exact C|]. split; [exact N'|]. split; [exact (inv_lframe _ _ It F)|]. split; [|split; [|split; [|split; [|split]]]].
   - intros Hctx Hb Cl. apply So; [| |exact Cl].
     + intro HL. apply (ctx_ok_agree l l1 s); [apply Hctx; exact HL|exact I|exact A1|exact Lt|exact Xt].
     + intro Hk. apply (brk_ok_agree l l1 s); [apply Hb; exact Hk|exact I|exact A1|exact Lt].
@@ -1761,6 +1856,7 @@ Proof.
   - exact Da.
   - exact Db.
   - exact Dc.
+  - exact Cn.
 Qed.
 
 Lemma S_with k body : S_block body -> S_stmt (With k body).
@@ -1780,12 +1876,12 @@ Proof.
   assert (N7 : next s7 = N.succ (N.succ (N.succ (N.succ (next s))))) by reflexivity.
   assert (A1 : agree (next s) l l1) by (intros b Hb; unfold l1; lev; reflexivity).
   destruct (S_branch s s7 (N.succ (next s)) l l1 inl body Sb I M7 eq_refl eq_refl K7) as (l2 & B); try assumption; try flia.
-  rewrite <- Es8p in B. destruct B as (A2 & F & C & N8 & I8 & So & Co & Da & Db & Dc).
+  rewrite <- Es8p in B. destruct B as (A2 & F & C & N8 & I8 & So & Co & Da & Db & Dc & _).
   assert (Hlb : l1 (N.succ (next s)) = L) by (unfold l1; lev; reflexivity). rewrite Hlb in *. fold rb in C, So, Co, Da, Db.
   rewrite N7 in *. pose proof (lf_curlt _ _ F) as Hc8.
   exists l2. split; [intros b Hb; lev; unfold l1; lev; reflexivity|].
   cbn [flow_stmt rn rk rmarks]. fold L rb.
-  split; [|split; [|split; [|split; [|split; [|split]]]]].
+  split; [|split; [|split; [|split; [|split; [|split; [|split]]]]]].
   - apply lframe_mid; autorewrite with bst; try flia.
     + apply mid_connect; [apply mid_connect; [apply mid_connect|..]|..]; try (left; exact Logic.I); try uflia.
       apply (mid_transA _ anyb s (set_cur s7 (N.succ (next s)))); [apply mid_set_cur; exact M7|apply F|intros; left; exact Logic.I].
@@ -1837,6 +1933,7 @@ Proof.
       right. exists e', b. split; [autorewrite with plc; exact Hp|exact Hm].
   - intros k' e' b Hp. autorewrite with plc. apply Dc. unfold s7. autorewrite with plc.
     apply placed_add_stmt_mono. autorewrite with plc. exact Hp.
+  - discriminate.
 Qed.
 
 Lemma S_class k nm body : S_block body -> S_stmt (Class k nm body).
@@ -1857,12 +1954,12 @@ Proof.
   assert (A1 : agree (next s) l l1) by (apply agree_upd; flia).
   destruct (S_branch s t (next s) l l1 false body Sb I Mt eq_refl eq_refl Kt) as (l2 & B); try assumption; try flia; try discriminate.
   set (s' := process_block' (set_cur t (next s)) body) in *.
-  destruct B as (A2 & F & C & N' & I' & So & Co & Da & Db & Dc).
+  destruct B as (A2 & F & C & N' & I' & So & Co & Da & Db & Dc & Cn).
   assert (Hlb : l1 (next s) = L) by (unfold l1; lev; reflexivity). rewrite Hlb in *. fold rb in C, So, Co, Da, Db.
   rewrite Nt in *.
   exists l2. split; [intros b Hb; lev; unfold l1; lev; reflexivity|].
   cbn [flow_stmt rn rk rmarks]. fold L rb.
-  split; [|split; [|split; [|split; [|split; [|split]]]]].
+  split; [|split; [|split; [|split; [|split; [|split; [|split]]]]]].
   - destruct F as [Fm Fl Fx Fc Fcl Fk]. autorewrite with bst in *. split; try assumption.
     + apply (mid_transA _ anyb s (set_cur t (next s))); [apply mid_set_cur; exact Mt|exact Fm|intros; left; exact Logic.I].
     + right. destruct Fc as [->|Fc]; flia.
@@ -1891,6 +1988,8 @@ Proof.
       * lev. unfold l1. lev. reflexivity.
     + destruct (Db k' m Hin) as [He|H]; [left; exact He|right; exact H].
   - intros k' e' b Hp. apply Dc. autorewrite with plc. unfold t. apply placed_add_stmt_mono. autorewrite with plc. exact Hp.
+  - intro H3. c03_split H3. rewrite (Cn H3). unfold t. cnt_norm.
+    rewrite (cntE_agree (next s) l l1 _ (wb_bnd _ Wb) A1). cbn [flow_stmt rcx]. cnt_fin.
 Qed.
 
 Lemma inv_connect s a b t : inv s -> a < next s -> b < next s -> inv (connect s a b t).
@@ -1947,7 +2046,7 @@ Proof.
   assert (Nt : next t = N.succ (next s)) by reflexivity.
   assert (A1 : agree (next s) l l1) by (apply agree_upd; flia).
   destruct (S_branch s t (next s) l l1 inl b Sb I Mt eq_refl eq_refl Kt) as (l2 & B); try assumption; try flia.
-  rewrite <- Es4p in B. destruct B as (A2 & F & C & N4 & I4 & So & Co & Da & Db & Dc).
+  rewrite <- Es4p in B. destruct B as (A2 & F & C & N4 & I4 & So & Co & Da & Db & Dc & _).
   assert (Hlb : l1 (next s) = L) by (unfold l1; lev; reflexivity). rewrite Hlb in *. fold r1 in C, So, Co, Da, Db.
   rewrite Nt in *. pose proof (lf_curlt _ _ F) as Hc4.
   set (s5 := connect s4p (cur s4p) merge ENormal) in *.
@@ -2043,7 +2142,7 @@ Proof.
   rewrite Nt in *.
   exists l2. split; [intros b Hb; lev; unfold l1; lev; reflexivity|].
   cbn [flow_stmt rn rk rmarks]. fold L ra.
-  split; [|split; [|split; [|split; [|split; [|split]]]]].
+  split; [|split; [|split; [|split; [|split; [|split; [|split]]]]]].
   - apply lframe_mid; autorewrite with bst; try flia.
     + apply mid_connect; [|left; exact Logic.I|flia|flia].
       apply (mid_transA _ anyb s t); [exact Mt|exact M'|intros; left; exact Logic.I].
@@ -2087,6 +2186,7 @@ Proof.
       right. exists e', b. split; [autorewrite with plc; exact Hp|exact Hm].
   - intros k' e' b Hp. autorewrite with plc. apply Dc'. unfold t. autorewrite with plc.
     apply placed_add_stmt_mono. autorewrite with plc. exact Hp.
+  - discriminate.
 Qed.
 
 (* ---- comprehensions: every block of the comprehension is reachable iff the statement is ---- *)
@@ -2180,6 +2280,21 @@ Proof.
     + intros k' e' b Hpl. apply Pm', Pm6. exact Hpl.
 Qed.
 
+(* the counted edges of the clauses: one ECondTrue edge per header and per filter block, all labelled like [prev] *)
+Lemma comp_clauses_cnt k cl : forall s prev (l0 : lam) (L0 : bool),
+  (forall b, next s <= b -> l0 b = L0) ->
+  cntE l0 (edges (snd (comp_clauses s k cl prev))) = (cntE l0 (edges s) + gate L0 (comp_cx cl))%nat.
+Proof.
+  induction cl as [|nifs cl IH]; intros s prev l0 L0 Hnew.
+  - cbn. unfold gate. destruct L0; flia.
+  - cbn [comp_clauses comp_cx fold_right]. fold (comp_cx cl). nbs. cbv zeta.
+    destruct (Nat.ltb 0 nifs); nbs; cbv zeta.
+    + rewrite (IH _ _ l0 L0) by (intros b Hb; apply Hnew; autorewrite with bst in Hb; flia).
+      cnt_norm. rewrite !Hnew by flia. unfold gate. destruct L0; flia.
+    + rewrite (IH _ _ l0 L0) by (intros b Hb; apply Hnew; autorewrite with bst in Hb; flia).
+      cnt_norm. rewrite !Hnew by flia. unfold gate. destruct L0; flia.
+Qed.
+
 Lemma S_comp k cl : S_stmt (Comp k cl).
 Proof.
   intros s l inl I _ _. set (L := l (cur s)).
@@ -2193,11 +2308,12 @@ Proof.
   assert (N4 : next s4 = N.succ (N.succ (next s))) by reflexivity.
   destruct (comp_clauses_sim k cl s4 (next s)) as (M5 & K5 & C5 & L5 & X5 & La & Ll & Ed & Re & Pa & Pm);
     [apply (wfb_mid anyb s); [exact M4|exact Wb|reflexivity|reflexivity]|exact K4|rewrite N4; flia|].
+  pose proof (comp_clauses_cnt k cl s4 (next s)) as Cc.
   destruct (comp_clauses s4 k cl (next s)) as [last s5]. cbn [fst snd] in *. rewrite N4 in *.
   pose proof (m_next _ _ _ M5) as N5. rewrite N4 in N5.
   set (src := if N.eqb last (next s) then next s else last).
   set (ety0 := if N.eqb last (next s) then ENormal else ECondFalse).
-  match goal with |- S_out _ _ _ _ (add_stmt (set_cur ?t _) _ _) _ _ => replace t with (connect s5 src (N.succ (next s)) ety0) by (unfold src, ety0; destruct (N.eqb last (next s)); reflexivity) end.
+  match goal with |- S_out _ _ _ _ (add_stmt (set_cur ?t _) _ _) _ _ _ => replace t with (connect s5 src (N.succ (next s)) ety0) by (unfold src, ety0; destruct (N.eqb last (next s)); reflexivity) end.
   assert (Hsrc : next s <= src /\ src < next s5 /\ (src = next s \/ src = last)).
   { unfold src. destruct (N.eqb last (next s)) eqn:El; [apply N.eqb_eq in El|apply N.eqb_neq in El]; repeat split; try flia; auto. }
   destruct Hsrc as (Hs1 & Hs2 & Hs3).
@@ -2205,7 +2321,7 @@ Proof.
   assert (A : agree (next s) l l') by (intros b Hb; unfold l'; destruct (N.ltb_spec b (next s)); [reflexivity|flia]).
   assert (Hfr : forall b, next s <= b -> l' b = L) by (intros b Hb; unfold l'; destruct (N.ltb_spec b (next s)); [flia|reflexivity]).
   exists l'. split; [exact A|].
-  split; [|split; [|split; [|split; [|split; [|split]]]]].
+  split; [|split; [|split; [|split; [|split; [|split; [|split]]]]]].
   - split; autorewrite with bst.
     + apply mid_add_stmt, mid_set_cur, mid_connect; [|left; exact Logic.I|exact Hs2|flia].
       apply (mid_transA _ anyb s s4); [exact M4|exact M5|intros; left; exact Logic.I].
@@ -2247,6 +2363,9 @@ Proof.
     unfold haskey. autorewrite with bst. apply (m_keys _ _ _ M5). flia.
   - intros k' e' b Hp. apply placed_add_stmt_mono. autorewrite with plc. apply Pm. unfold s4. autorewrite with plc.
     apply placed_add_stmt_mono. autorewrite with plc. exact Hp.
+  - intros _. assert (Hety : counted ety0 = false) by (unfold ety0; destruct (N.eqb last (next s)); reflexivity).
+    autorewrite with bst. rewrite cntE_snoc, Hety. rewrite (Cc l' L) by (intros b Hb; apply Hfr; flia).
+    unfold s4. cnt_norm. rewrite (cntE_agree (next s) l l' _ (wb_bnd _ Wb) A). cnt_fin.
 Qed.
 
 (* ---- exception handlers: block [hb_i] (labelled [L], created by the try statement) holds handler [i] ---- *)
@@ -2262,7 +2381,8 @@ Definition H_out (s : st) (hbs : list N) (nxt : N) (l : lam) (L : bool) (a : arm
      (rk ra = true -> noproc s -> forall t0, brk_t s = Some t0 -> reach E t0)) /\
   (forall k e b0, placed s' k e b0 -> placed s k e b0 \/ (k = 0 /\ e = 0) \/ (In (k, l' b0) (rmarks ra) /\ In (k, e) (spans_arms a))) /\
   (forall k m, In (k, m) (rmarks ra) -> In k (elif_arms a) \/ exists e b0, placed s' k e b0 /\ l' b0 = m) /\
-  (forall k e b0, placed s k e b0 -> placed s' k e b0).
+  (forall k e b0, placed s k e b0 -> placed s' k e b0) /\
+  (c03_arms a = true -> cntE l' (edges s') = (cntE l (edges s) + rcx ra)%nat).
 
 Definition S_handlers (a : arms) : Prop := forall s hbs nxt l L inl,
   inv s -> length hbs = arms_length a ->
@@ -2275,11 +2395,12 @@ Lemma S_handlers_nil : S_handlers ANil.
 Proof.
   intros s hbs nxt l L inl I _ _ Hn _ _. exists l. unfold H_out. cbn.
   split; [apply agree_refl|]. split; [apply mid_refl_b, I|]. split; [reflexivity|]. split; [reflexivity|].
-  split; [exact (i_klt _ I)|]. split; [flia|]. split; [exact (i_cur _ I)|]. split; [intros _ _ _ C; exact C|]. split; [|split; [|split]].
+  split; [exact (i_klt _ I)|]. split; [flia|]. split; [exact (i_cur _ I)|]. split; [intros _ _ _ C; exact C|]. split; [|split; [|split; [|split]]].
   - intros E HE HR. split; [intros b0 H1 H2; flia|]. split; discriminate.
   - intros k e b0 Hp. left. exact Hp.
   - intros k m [].
   - intros k e b0 Hp. exact Hp.
+  - intros _. flia.
 Qed.
 
 Lemma S_handlers_cons k b r : S_block b -> S_handlers r -> S_handlers (ACons k b r).
@@ -2298,8 +2419,8 @@ Proof.
   assert (It : inv (set_cur t hb)).
   { split; [apply (wfb_mid anyb s); [apply mid_set_cur; exact Mt|exact Wb|reflexivity|reflexivity]|exact Hb1|exact Kt|exact Hb3]. }
   destruct (S_branch0 s t hb l l inl b Sb I It eq_refl eq_refl (agree_refl _ _) Hlok1 Hinl) as (l2 & B).
-  rewrite <- Es2p in B. destruct B as (A2 & F & C & N2 & I2 & So & Co & Da & Db & Dc).
-  rewrite Hb2 in C, So, Co, Da, Db. fold r1 in C, So, Co, Da, Db.
+  rewrite <- Es2p in B. destruct B as (A2 & F & C & N2 & I2 & So & Co & Da & Db & Dc & Cn).
+  rewrite Hb2 in C, So, Co, Da, Db, Cn. fold r1 in C, So, Co, Da, Db.
   assert (Nt : next t = next s) by reflexivity. rewrite Nt in *.
   pose proof (lf_curlt _ _ F) as Hc2.
   set (s3 := connect s2p (cur s2p) nxt ENormal) in *.
@@ -2311,11 +2432,11 @@ Proof.
   { intros h Hin. destruct (Hh h (or_intror Hin)) as (Q1 & Q2 & Q3). rewrite N3. split; [flia|]. split; [rewrite (A2 h Q1); exact Q2|].
     rewrite X3. exact Q3. }
   set (s' := process_handlers' s3 r hbr nxt) in *.
-  destruct HO as (A3 & M' & L' & X' & K' & N' & C' & So' & Co' & Da' & Db' & Dc'). fold r2 in So', Co', Da', Db'.
+  destruct HO as (A3 & M' & L' & X' & K' & N' & C' & So' & Co' & Da' & Db' & Dc' & Cn'). fold r2 in So', Co', Da', Db'.
   rewrite N3 in *.
   exists l3. unfold H_out. cbn [flow_arms rn rk rmarks spans_arms elif_arms]. fold r1 r2 X.
   split; [intros b0 Hb0; lev; reflexivity|].
-  split; [|split; [congruence|split; [congruence|split; [exact K'|split; [flia|split; [exact C'|split; [|split; [|split; [|split]]]]]]]]].
+  split; [|split; [congruence|split; [congruence|split; [exact K'|split; [flia|split; [exact C'|split; [|split; [|split; [|split; [|split]]]]]]]]]].
   - apply (mid_transA _ anyb s s3); [|exact M'|intros; left; exact Logic.I].
     apply mid_connect; [|left; exact Logic.I|exact Hc2|flia].
     apply (mid_transA _ anyb s (set_cur t hb)); [apply mid_set_cur; exact Mt|apply F|intros; left; exact Logic.I].
@@ -2361,6 +2482,7 @@ Proof.
       * destruct (Db' k' m Hin) as [He|H]; [left; apply in_or_app; right; exact He|right; exact H].
   - intros k' e' b0 Hp. apply Dc'. unfold s3. autorewrite with plc. apply Dc. autorewrite with plc. unfold t.
     apply placed_add_stmt_mono. exact Hp.
+  - intro H3. c03_split H3. rewrite (Cn' H0). unfold s3. cnt_norm. rewrite (Cn H3). unfold t. cnt_norm. cnt_fin.
 Qed.
 
 (* ---- the propagation edges of a finally block ---- *)
@@ -2493,7 +2615,9 @@ Definition TB_out (s t7 : st) (tryb nat afe : N) (hbs : list N) (l l1 : lam) (bo
   (forall k e b0, placed s11 k e b0 -> placed t7 k e b0 \/ (k = 0 /\ e = 0) \/
      (In (k, l3 b0) (rmarks rb ++ rmarks rh) /\ In (k, e) (spans_block body ++ spans_arms hs))) /\
   (forall k m, In (k, m) (rmarks rb ++ rmarks rh) -> In k (elif_block body ++ elif_arms hs) \/ exists e b0, placed s11 k e b0 /\ l3 b0 = m) /\
-  (forall k e b0, placed t7 k e b0 -> placed s11 k e b0).
+  (forall k e b0, placed t7 k e b0 -> placed s11 k e b0) /\
+  (c03_block body = true -> c03_arms hs = true ->
+     cntE l3 (edges s11) = (cntE l1 (edges t7) + gate L (arms_length hs) + rcx rb + rcx rh)%nat).
 
 Lemma S_try_body s t7 tryb nat afe hbs finb l l1 inl body hs :
   S_block body -> S_handlers hs -> inv s ->
@@ -2527,7 +2651,7 @@ Proof.
     - intros x h [<-|Hx] Hh'; [cbn [ctx x_handlers] in Hh'; rewrite (Hh0 h Hh'); exact HL|].
       destruct (wb_fin _ Wb x Hx) as (_ & Q). rewrite (A0 h) by (apply Q; exact Hh'). eapply Q3; eauto.
     - intros lp Hlp. destruct (wb_loops _ Wb lp Hlp) as (Q & _). rewrite (A0 _ Q). apply Q4. exact Hlp. }
-  destruct (Sb (set_cur t7 tryb) l1 inl I7 Hlok1) as (l2 & A2 & F8 & C8 & So8 & Co8 & Da8 & Db8 & Dc8).
+  destruct (Sb (set_cur t7 tryb) l1 inl I7 Hlok1) as (l2 & A2 & F8 & C8 & So8 & Co8 & Da8 & Db8 & Dc8 & Cn8).
   { autorewrite with bst. rewrite L7. exact Hinl. }
   autorewrite with bst in *. rewrite Hlt in *. fold rb in C8, So8, Co8, Da8, Db8.
   set (s8 := process_block' (set_cur t7 tryb) body) in *.
@@ -2556,14 +2680,14 @@ Proof.
     - destruct (wb_fin _ Wb x Hx) as (Q & _). specialize (Q f Hf). flia. }
   { rewrite L10, L7. exact Hinl. }
   fold rh in HO. set (s11 := process_handlers' s10 hs hbs afe) in *.
-  destruct HO as (A3 & M11 & L11 & X11 & K11 & N11 & C11 & So11 & Co11 & Da11 & Db11 & Dc11). fold rh in So11, Co11, Da11, Db11.
+  destruct HO as (A3 & M11 & L11 & X11 & K11 & N11 & C11 & So11 & Co11 & Da11 & Db11 & Dc11 & Cn11). fold rh in So11, Co11, Da11, Db11.
   rewrite N10 in *.
   assert (Ag2 : agree (next s) l l2) by (intros b0 Hb0; rewrite (A2 b0) by flia; apply A1; exact Hb0).
   exists l3. unfold TB_out. cbv zeta. fold L rb rh.
   split; [intros b0 Hb0; rewrite (A3 b0) by flia; apply A2; exact Hb0|].
   split; [apply (mid_transA _ anyb t7 s10); [exact M10|exact M11|intros; left; exact Logic.I]|].
   split; [congruence|]. split; [congruence|]. split; [exact K11|]. split; [exact C11|]. split; [flia|].
-  split; [|split; [|split; [|split]]].
+  split; [|split; [|split; [|split; [|split]]]].
   - intros Hctx Hb Cl. apply So11.
     + intro HL. apply (Hctx7 l2); try assumption.
       * rewrite (A2 tryb Ht2). exact Hlt.
@@ -2621,6 +2745,8 @@ Proof.
       assert (Hb0 : b0 < next s8) by (apply (placed_lt s8 k e); assumption). rewrite (A3 b0 Hb0). exact Hm.
     + destruct (Db11 k m Hin) as [He|H]; [left; apply in_or_app; right; exact He|right; exact H].
   - intros k e b0 Hp. apply Dc11. unfold s10. autorewrite with plc. apply Dc8. autorewrite with plc. exact Hp.
+  - intros H3 H4. rewrite (Cn11 H4), E10, cntE_app, cntE_snoc, cntE_map_const. cbn [counted].
+    rewrite (Cn8 H3), (A2 tryb Ht2), Hlt, Hlen. cnt_fin.
 Qed.
 
 Lemma new_blocks_blocks n : forall s k e b, placed (snd (new_blocks s n)) k e b <-> placed s k e b.
@@ -2767,11 +2893,11 @@ Proof.
   { intro Hn. unfold l1. rewrite try_lab_exit. unfold rb, L. rewrite Hn. reflexivity. }
   { intro Hn. unfold l1. rewrite try_lab_exit. unfold rh, L. rewrite Hn. apply orb_true_r. }
   rewrite <- Es11p in TB.
-  destruct TB as (A3 & M11 & L11 & X11 & K11 & C11 & N11 & So & Co & Da & Db & Dc). fold L rb rh in So, Co, Da, Db.
+  destruct TB as (A3 & M11 & L11 & X11 & K11 & C11 & N11 & So & Co & Da & Db & Dc & Cn). fold L rb rh in So, Co, Da, Db.
   rewrite X11, X7. cbn [tl].
   exists l3. split; [intros b Hb; rewrite (A3 b) by flia; apply A1; exact Hb|].
   cbn [flow_stmt flow_oblock opt_n rn rk rmarks spans_stmt spans_oblock elif_stmt elif_oblock]. fold L rb rh. rewrite !orb_false_r, !app_nil_r.
-  split; [|split; [|split; [|split; [|split; [|split]]]]].
+  split; [|split; [|split; [|split; [|split; [|split; [|split]]]]]].
   - apply lframe_mid; autorewrite with bst; try flia.
     + apply mid_set_excs. apply (mid_transA _ anyb s t7); [exact M7|exact M11|intros; left; exact Logic.I].
     + rewrite L11. exact L7.
@@ -2799,6 +2925,8 @@ Proof.
     + left. exact He.
     + right. exists e', b. split; [autorewrite with plc; exact Hp|exact Hm].
   - intros k' e' b Hp. autorewrite with plc. apply Dc. apply P7. exact Hp.
+  - intro H3. cbn [c03_stmt c03_oblock] in H3. rewrite !andb_true_r in H3. apply andb_true_iff in H3. destruct H3 as (H3b & H3h).
+    autorewrite with bst. rewrite (Cn H3b H3h), E7. cnt_norm. rewrite (cntE_agree (next s) l l1 _ (wb_bnd _ Wb) A1). cnt_fin.
 Qed.
 
 Lemma ctx_push_ok s l l0 t finb hbs p :
@@ -3008,7 +3136,7 @@ Proof.
   { intro Hn. unfold l1. rewrite try_lab_new by (unfold f; flia). apply (rn_block_le _ _ Hn). }
   { intro Hn. unfold l1. rewrite try_lab_new by (unfold f; flia). apply (rn_arms_le _ _ Hn). }
   rewrite <- Es11p in TB.
-  destruct TB as (A3 & M11 & L11 & X11 & K11 & C11 & N11 & So & Co & Da & Db & Dc). fold L rb rh in So, Co, Da, Db.
+  destruct TB as (A3 & M11 & L11 & X11 & K11 & C11 & N11 & So & Co & Da & Db & Dc & Cn). fold L rb rh in So, Co, Da, Db.
   assert (M11' : mid anyb s s11p) by (apply (mid_transA _ anyb s t7); [exact M7|exact M11|intros; left; exact Logic.I]).
   destruct (S_try_fin s s11p f hbs l l3 inl fb Sf I M11' K11) as (l4 & TF); try assumption; try (unfold f; flia).
   { rewrite L11. exact L7. }
@@ -3024,7 +3152,7 @@ Proof.
   rewrite XF. cbn [tl].
   exists l4. split; [intros b Hb; rewrite (A4 b) by flia; rewrite (A3 b) by flia; apply A1; exact Hb|].
   cbn [flow_stmt flow_oblock opt_n rn rk rmarks spans_stmt spans_oblock elif_stmt elif_oblock]. fold L rb rh rf. rewrite !app_nil_l.
-  split; [|split; [|split; [|split; [|split; [|split]]]]].
+  split; [|split; [|split; [|split; [|split; [|split; [|split]]]]]].
   - apply lframe_mid; autorewrite with bst; try flia.
     + apply mid_set_excs. apply (mid_transA _ anyb s s11p); [exact M11'|exact MF|intros; left; exact Logic.I].
     + exact LF.
@@ -3074,6 +3202,7 @@ Proof.
     + destruct (DbF k' m Hin) as [He|(e' & b & Hp & Hm)]; [left; rewrite app_assoc; apply in_or_app; right; exact He|].
       right. exists e', b. split; [autorewrite with plc; exact Hp|exact Hm].
   - intros k' e' b Hp. autorewrite with plc. apply DcF, Dc. apply P7. exact Hp.
+  - intro H3. cbn [c03_stmt] in H3. rewrite andb_false_r in H3. discriminate.
 Qed.
 
 (* ---- try: the else block (entered when the body ends normally) ---- *)
@@ -3088,7 +3217,8 @@ Definition TE_out (s s11 : st) (elseb afe : N) (Le : bool) (l l3 : lam) (eb : bl
      (Le = true -> rn re = false -> forall g, Cfin g s11 -> reach E g)) /\
   (forall k e b0, placed s12 k e b0 -> placed s11 k e b0 \/ (k = 0 /\ e = 0) \/ (In (k, l4 b0) (rmarks re) /\ In (k, e) (spans_block eb))) /\
   (forall k m, In (k, m) (rmarks re) -> In k (elif_block eb) \/ exists e b0, placed s12 k e b0 /\ l4 b0 = m) /\
-  (forall k e b0, placed s11 k e b0 -> placed s12 k e b0).
+  (forall k e b0, placed s11 k e b0 -> placed s12 k e b0) /\
+  (c03_block eb = true -> cntE l4 (edges s12) = (cntE l3 (edges s11) + rcx re)%nat).
 
 Lemma S_try_else s s11 elseb afe finb hbs l l3 inl eb :
   S_block eb -> inv s -> mid anyb s s11 -> klt s11 -> loops s11 = loops s ->
@@ -3112,16 +3242,16 @@ Proof.
   { split; [apply (wfb_mid anyb s11); [apply mid_set_cur, mid_refl_b; exact Wb11|exact Wb11|reflexivity|reflexivity]|exact He2|exact K11|].
     autorewrite with bst. rewrite X11. intros x g [<-|Hx] Hp Hg; [cbn [x_finally] in Hg; apply (Hfb g Hg)|].
     destruct (wb_fin _ Wb x Hx) as (Q & _). specialize (Q g Hg). flia. }
-  destruct (Se (set_cur s11 elseb) l3 inl I11 Hlok) as (l4 & A4 & F & C & So & Co & Da & Db & Dc).
+  destruct (Se (set_cur s11 elseb) l3 inl I11 Hlok) as (l4 & A4 & F & C & So & Co & Da & Db & Dc & Cn).
   { autorewrite with bst. rewrite L11. exact Hinl. }
   autorewrite with bst in *. fold Le re in C, So, Co, Da, Db.
-  intro t1. fold t1 in A4, F, C, So, Co, Da, Db, Dc.
+  intro t1. fold t1 in A4, F, C, So, Co, Da, Db, Dc, Cn.
   pose proof (lf_curlt _ _ F) as Hc1. pose proof (m_next _ _ _ (lf_mid _ _ F)) as N1. autorewrite with bst in N1.
   exists l4. unfold TE_out. cbv zeta. fold Le re. autorewrite with bst.
   split; [exact A4|]. split; [|split; [rewrite (lf_loops _ _ F); reflexivity|split; [rewrite (lf_excs _ _ F); reflexivity|split; [apply klt_connect; exact (lf_klt _ _ F)|split; [exact N1|]]]]].
   { apply mid_connect; [|left; exact Logic.I|exact Hc1|flia].
     apply (mid_transA _ anyb s11 (set_cur s11 elseb)); [apply mid_set_cur, mid_refl_b; exact Wb11|apply F|intros; left; exact Logic.I]. }
-  split; [|split; [|split; [|split]]].
+  split; [|split; [|split; [|split; [|split]]]].
   - intros Hctx Hb Hmg Cl. rewrite closed_snoc. split.
     + apply So; [| |exact Cl].
       * intro HL. destruct (Hlab HL) as (Q1 & Q2). apply (ctx_push_ok s l l3 (set_cur s11 elseb) finb hbs false I A3 Q1 Q2); [exact L11|exact X11|apply Hctx; exact HL].
@@ -3141,6 +3271,7 @@ Proof.
   - intros k e b0 Hp. autorewrite with plc in Hp. destruct (Da k e b0 Hp) as [Hp0|[Hk|Hm]]; [left; autorewrite with plc in Hp0; exact Hp0|right; left; exact Hk|right; right; exact Hm].
   - intros k m Hin. destruct (Db k m Hin) as [He|(e & b0 & Hp & Hm)]; [left; exact He|]. right. exists e, b0. split; [autorewrite with plc; exact Hp|exact Hm].
   - intros k e b0 Hp. autorewrite with plc. apply Dc. autorewrite with plc. exact Hp.
+  - intro H3. cnt_norm. rewrite (Cn H3). fold Le re. cnt_fin.
 Qed.
 
 Lemma S_try_sn k body hs eb : S_block body -> S_handlers hs -> S_block eb -> S_stmt (Try k body hs (OSome eb) ONone).
@@ -3177,7 +3308,7 @@ Proof.
   { intro Hn. rewrite Hl1e. exact Hn. }
   { intro Hn. rewrite Hl1x. fold L rh. unfold rh, L. rewrite Hn. apply orb_true_r. }
   rewrite <- Es11p in TB.
-  destruct TB as (A3 & M11 & L11 & X11 & K11 & C11 & N11 & So & Co & Da & Db & Dc). fold L rb rh in So, Co, Da, Db.
+  destruct TB as (A3 & M11 & L11 & X11 & K11 & C11 & N11 & So & Co & Da & Db & Dc & Cn). fold L rb rh in So, Co, Da, Db.
   assert (M11' : mid anyb s s11p) by (apply (mid_transA _ anyb s t7); [exact M7|exact M11|intros; left; exact Logic.I]).
   assert (Hl3e : l3 elseb = rn rb) by (rewrite (A3 elseb) by (unfold elseb; flia); exact Hl1e).
   destruct (S_try_else s s11p elseb (N.succ (next s)) None hbs l l3 inl eb Se I M11' K11) as (l4 & TE); try assumption; try (unfold elseb; flia); try discriminate.
@@ -3189,11 +3320,11 @@ Proof.
     rewrite Hl1n by (unfold elseb; flia). apply (rn_block_le _ _ Hn). }
   cbv zeta in TE. rewrite <- Et1p in TE. rewrite Hl3e in TE.
   set (s12 := connect t1p (cur t1p) (N.succ (next s)) ENormal) in *.
-  destruct TE as (A4 & M12 & L12 & X12 & K12 & N12 & SoE & CoE & DaE & DbE & DcE). fold re in SoE, CoE, DaE, DbE.
+  destruct TE as (A4 & M12 & L12 & X12 & K12 & N12 & SoE & CoE & DaE & DbE & DcE & CnE). fold re in SoE, CoE, DaE, DbE.
   assert (Xt1 : excs t1p = excs t7) by (rewrite <- X11; exact X12). rewrite Xt1, X7. cbn [tl].
   exists l4. split; [intros b Hb; rewrite (A4 b) by flia; rewrite (A3 b) by flia; apply A1; exact Hb|].
   cbn [flow_stmt flow_oblock opt_n rn rk rmarks spans_stmt spans_oblock elif_stmt elif_oblock]. fold L rb rh re. rewrite !app_nil_r.
-  split; [|split; [|split; [|split; [|split; [|split]]]]].
+  split; [|split; [|split; [|split; [|split; [|split; [|split]]]]]].
   - apply lframe_mid; autorewrite with bst; try flia.
     + apply mid_set_excs. apply (mid_transA _ anyb s s11p); [exact M11'|exact M12|intros; left; exact Logic.I].
     + rewrite L12, L11. exact L7.
@@ -3252,6 +3383,9 @@ Proof.
     + destruct (DbE k' m Hin) as [He|(e' & b & Hp & Hm)]; [left; rewrite app_assoc; apply in_or_app; right; exact He|].
       right. exists e', b. split; [autorewrite with plc; exact Hp|exact Hm].
   - intros k' e' b Hp. autorewrite with plc. apply DcE, Dc. apply P7. exact Hp.
+  - intro H3. cbn [c03_stmt c03_oblock] in H3. rewrite andb_true_r in H3. apply andb_true_iff in H3. destruct H3 as (H3 & H3e).
+    apply andb_true_iff in H3. destruct H3 as (H3b & H3h).
+    autorewrite with bst. rewrite (CnE H3e), (Cn H3b H3h), E7. cnt_norm. rewrite (cntE_agree (next s) l l1 _ (wb_bnd _ Wb) A1). cnt_fin.
 Qed.
 
 Ltac fl2 := repeat match goal with x := _ : N |- _ => progress unfold x in * end; flia.
@@ -3294,7 +3428,7 @@ Proof.
   { intro Hn. rewrite Hl1e. exact Hn. }
   { intro Hn. rewrite Hl1n by fl2. apply (rn_arms_le _ _ Hn). }
   rewrite <- Es11p in TB.
-  destruct TB as (A3 & M11 & L11 & X11 & K11 & C11 & N11 & So & Co & Da & Db & Dc). fold L rb rh in So, Co, Da, Db.
+  destruct TB as (A3 & M11 & L11 & X11 & K11 & C11 & N11 & So & Co & Da & Db & Dc & Cn). fold L rb rh in So, Co, Da, Db.
   assert (M11' : mid anyb s s11p) by (apply (mid_transA _ anyb s t7); [exact M7|exact M11|intros; left; exact Logic.I]).
   assert (Hl3e : l3 elseb = rn rb) by (rewrite (A3 elseb) by fl2; exact Hl1e).
   assert (Hl3n : forall b, next s <= b -> b < next t7 -> b <> N.succ (next s) -> b <> elseb -> l3 b = L).
@@ -3310,7 +3444,7 @@ Proof.
     - intros g Hg. inversion Hg; subst g. rewrite Hl3n by fl2. exact HL. }
   cbv zeta in TE. rewrite <- Et1p in TE. rewrite Hl3e in TE.
   set (s12 := connect t1p (cur t1p) f ENormal) in *.
-  destruct TE as (A4 & M12 & L12 & X12 & K12 & N12 & SoE & CoE & DaE & DbE & DcE). fold re in SoE, CoE, DaE, DbE.
+  destruct TE as (A4 & M12 & L12 & X12 & K12 & N12 & SoE & CoE & DaE & DbE & DcE & CnE). fold re in SoE, CoE, DaE, DbE.
   assert (M12' : mid anyb s s12) by (apply (mid_transA _ anyb s s11p); [exact M11'|exact M12|intros; left; exact Logic.I]).
   assert (N12' : next s12 = next t1p) by reflexivity.
   destruct (S_try_fin s s12 f hbs l l4 inl fb Sf I M12' K12) as (l5 & TF); try assumption; try fl2.
@@ -3328,7 +3462,7 @@ Proof.
   rewrite XF. cbn [tl].
   exists l5. split; [intros b Hb; rewrite (A5 b) by flia; rewrite (A4 b) by flia; rewrite (A3 b) by flia; apply A1; exact Hb|].
   cbn [flow_stmt flow_oblock opt_n rn rk rmarks spans_stmt spans_oblock elif_stmt elif_oblock]. fold L rb rh re rf.
-  split; [|split; [|split; [|split; [|split; [|split]]]]].
+  split; [|split; [|split; [|split; [|split; [|split; [|split]]]]]].
   - apply lframe_mid; autorewrite with bst; try flia.
     + apply mid_set_excs. apply (mid_transA _ anyb s s12); [exact M12'|exact MF|intros; left; exact Logic.I].
     + exact LF.
@@ -3402,6 +3536,7 @@ Proof.
       * destruct (DbF k' m Hin) as [He|(e' & b & Hp & Hm)]; [left; do 3 (apply in_or_app; right); exact He|].
         right. exists e', b. split; [autorewrite with plc; exact Hp|exact Hm].
   - intros k' e' b Hp. autorewrite with plc. apply DcF, DcE, Dc. apply P7. exact Hp.
+  - intro H3. cbn [c03_stmt] in H3. rewrite andb_false_r in H3. discriminate.
 Qed.
 
 Definition S_arms (a : arms) : Prop := S_elif a /\ S_handlers a /\ S_cases a.
